@@ -1,14 +1,580 @@
-"""C06 — throughput counts every operation exactly once, however samples are batched (DESIGN.md section 4, C06)."""
+"""C06 — throughput counts every operation exactly once, however samples are batched (DESIGN.md section 4, C06).
+
+Roles are derived from data flow, not from the spelling of locals / attributes of the calculator: the per-task state class is the class whose instances the calculator stores under the
+task key; the running count is the local handed to the state's finishing routine; the attributes of the state (carried total, pending samples, interval, start, sample type, has-value
+flag) are the ones those values flow into. The small methods of the state class are decided on VALUES: their bodies are interpreted over representative field values
+(sa.minieval on the extracted statements, never a call into the repository). Only the field names of `Sample` (the vocabulary of the property) and the class / entry point names
+`ThroughputCalculator.calculate` are taken literally."""
 from __future__ import annotations
 
 import ast
+import itertools
 
-from sa import source
+from sa import minieval, pat, source
 from sa.cfg import cfg_of, guards, negate
-from sa.source import AnchorMissing, dotted, inline, is_self_attr, last_attr, local_defs, short, u, walk_body
+from sa.classes import is_logging_call, is_logging_stmt
+from sa.minieval import CannotEval, Record
+from sa.source import AnchorMissing, dotted, inline, is_self_attr, last_attr, local_defs, params_of, short, u, walk_body
 from sa.sym import rat_equal, parse_expr
 
 _D = "esrally/driver/driver.py"
+
+# fields of Sample the property is phrased in
+_ABS, _REL, _PERIOD, _OPS, _UNIT, _STYPE, _TP = "absolute_time", "relative_time", "time_period", "total_ops", "total_ops_unit", "sample_type", "throughput"
+
+
+# ---------------------------------------------------------------------------------------------------------------------------------------
+# local helpers (candidates for sa/): simultaneous substitution, expression helpers inlined at their call site, reaching definition, a value-level interpreter for small methods
+
+
+def _subst(expr, mapping):
+    """fresh copy of expr with the loaded names in `mapping` replaced by (copies of) their expressions - one simultaneous pass, so `a -> b, b -> a` is a swap."""
+
+    class T(ast.NodeTransformer):
+        def visit_Name(self, n):
+            if isinstance(n.ctx, ast.Load) and n.id in mapping:
+                return source.clone(mapping[n.id])
+            return n
+
+    return T().visit(source.clone(expr))
+
+
+def _plain_body(fn):
+    """statements of a function without docstring and logging."""
+    return [s for s in fn.body if not (isinstance(s, ast.Expr) and isinstance(s.value, ast.Constant)) and not is_logging_stmt(s)]
+
+
+def _returned_expr(fn):
+    """the expression a straight-line helper returns (its own single-assignment locals inlined), or None if the helper is more than assignments followed by its only return."""
+    body = _plain_body(fn)
+    rets = [n for n in walk_body(fn) if isinstance(n, ast.Return)]
+    if len(rets) != 1 or not body or body[-1] is not rets[0] or rets[0].value is None or any(not isinstance(s, ast.Assign) for s in body[:-1]):
+        return None
+    return source.inline_node(rets[0].value, local_defs(fn))
+
+
+class _Helpers:
+    """methods of one class plus the module-level functions: what `self.m(...)`, `cls.m(...)`, `<Class>.m(...)` and `f(...)` resolve to."""
+
+    def __init__(self, drv, cls):
+        self.cls = cls
+        self.methods = drv.methods(cls)
+        self.funcs = {n.name: n for n in drv.tree.body if isinstance(n, source.FUNC_TYPES)}
+
+    def callee(self, call):
+        f = call.func
+        if isinstance(f, ast.Name):
+            return self.funcs.get(f.id)
+        if isinstance(f, ast.Attribute):
+            d = dotted(f.value)
+            if d is not None and d.split(".")[-1] in ("self", "cls", self.cls.name):
+                return self.methods.get(f.attr)
+        return None
+
+    def expand(self, e, depth=0):
+        """fresh expression in which calls of expression helpers are replaced by what they return, arguments bound to parameters (defaults for omitted ones)."""
+        H = self
+
+        class T(ast.NodeTransformer):
+            def visit_Call(self, n):
+                self.generic_visit(n)
+                fn = H.callee(n)
+                if fn is None or depth > 3:
+                    return n
+                rex = _returned_expr(fn)
+                if rex is None:
+                    return n
+                m = dict(source.bind_args(n, fn))
+                names = [p for p in params_of(fn) if p not in ("self", "cls")]
+                dflt = fn.args.defaults
+                for p, dv in zip(names[len(names) - len(dflt):], dflt):
+                    m.setdefault(p, dv)
+                if any(p not in m for p in names) or any(isinstance(a_, ast.Starred) for a_ in n.args) or any(k.arg is None for k in n.keywords):
+                    return n
+                return H.expand(_subst(rex, m), depth + 1)
+
+        return T().visit(source.clone(e))
+
+    def resolve(self, expr, func, keep=()):
+        """expr as a function of the inputs of `func`: single-assignment locals (except `keep`) replaced by their definitions, expression helpers inlined."""
+        defs = {k: v for k, v in local_defs(func).items() if k not in keep}
+        return self.expand(source.inline_node(expr, defs))
+
+    def closure(self, fn):
+        """methods of the class reachable from fn through self.m(...) / cls.m(...) / <Class>.m(...) calls (fn included)."""
+        seen, todo = [], [fn]
+        while todo:
+            f = todo.pop()
+            if any(f is x for x in seen):
+                continue
+            seen.append(f)
+            for n in walk_body(f):
+                if isinstance(n, ast.Call) and isinstance(n.func, ast.Attribute):
+                    c = self.callee(n)
+                    if c is not None and c.name in self.methods:
+                        todo.append(c)
+        return seen
+
+
+def _reaching(func, name, at):
+    """value of the one assignment `name = ...` that reaches statement `at` in func (no other assignment of the name on the way), else None."""
+    assigns = [n for n in walk_body(func) if isinstance(n, ast.Assign) and any(isinstance(t, ast.Name) and t.id == name for t in n.targets)]
+    other = [n for n in walk_body(func) if isinstance(n, ast.Name) and n.id == name and isinstance(n.ctx, (ast.Store, ast.Del)) and not any(n is t for a_ in assigns for t in a_.targets)]
+    if not assigns or other or name in params_of(func):
+        return None
+    g = cfg_of(func)
+    try:
+        at_n = g.node_of(at)
+        nodes = [g.node_of(a_) for a_ in assigns]
+    except KeyError:
+        return None
+    reach = []
+    for a_, an in zip(assigns, nodes):
+        others = [o for o in nodes if o is not an]
+        starts = [g.nodes[y] for y, lab in g.succ[an.id] if g.normal_edge(an.id, y, lab)]
+        if at_n.id in g.reachable(starts, avoid=others):
+            reach.append(a_)
+    return reach[0].value if len(reach) == 1 else None
+
+
+def _every_iteration_passes(g, L, nodes):
+    """every way through one iteration of loop L (back to its head, out of it, or out of the function by return) passes one of `nodes` - exception edges aside."""
+    Lh = g.node_of(L)
+    after = [n for n in g.edge_targets(Lh, "exhausted")]
+    for s in g.edge_targets(Lh, "iter"):
+        r = g.reachable([s], avoid=nodes, edge_ok=g.normal_edge)
+        if Lh.id in r or g.exit.id in r or any(a_.id in r for a_ in after):
+            return False
+    return True
+
+
+class _Ret(Exception):
+    def __init__(self, v):
+        self.v = v
+
+
+class _Model:
+    """Value-level model of a small class: its methods are interpreted statement by statement over a Record that stands for `self`. Supported: assignments to locals and to
+    attributes of the record, augmented assignments, if / return / pass, list append / clear / extend, calls of and property reads on the record itself; logging and docstrings
+    are skipped. Anything else raises CannotEval (the obligation is then 'not recognised', never a verdict)."""
+
+    def __init__(self, cls, methods):
+        self.cls = cls
+        self.methods = methods
+        self.props = {n for n, f in methods.items() if any(dotted(d) in ("property", "functools.cached_property", "cached_property") for d in f.decorator_list)}
+        self.dataclass = any((dotted(d.func if isinstance(d, ast.Call) else d) or "").split(".")[-1] == "dataclass" for d in cls.decorator_list)
+        self.globals = {}  # module-level names the methods may read (e.g. an enum), as Records
+        self._depth = 0
+
+    # -- construction ---------------------------------------------------------------------------------------------------------------
+    def init_params(self):
+        if "__init__" in self.methods:
+            return [p for p in params_of(self.methods["__init__"]) if p != "self"]
+        if self.dataclass:
+            return [nm for nm, v in self._dc_fields() if self._dc_init(v)]
+        return []
+
+    def _dc_fields(self):
+        out = []
+        for st in self.cls.body:
+            if isinstance(st, ast.AnnAssign) and isinstance(st.target, ast.Name):
+                out.append((st.target.id, st.value))
+            elif isinstance(st, ast.Assign) and len(st.targets) == 1 and isinstance(st.targets[0], ast.Name) and not st.targets[0].id.startswith("__"):
+                out.append((st.targets[0].id, st.value))
+        return out
+
+    @staticmethod
+    def _dc_field_call(v):
+        return isinstance(v, ast.Call) and (dotted(v.func) or "").split(".")[-1] == "field"
+
+    def _dc_init(self, v):
+        if self._dc_field_call(v):
+            k = source.arg_of(v, None, "init")
+            return not (k is not None and source.is_const(k) and k.value is False)
+        return True
+
+    def attr_of_param(self, p):
+        """the attribute of the instance that receives constructor parameter p unchanged."""
+        if "__init__" in self.methods:
+            f = self.methods["__init__"]
+            hits = [t.attr for n in walk_body(f) if isinstance(n, ast.Assign) and isinstance(n.value, ast.Name) and n.value.id == p for t in n.targets if is_self_attr(t)]
+            return hits[0] if len(hits) == 1 else None
+        return p if self.dataclass and p in self.init_params() else None
+
+    def bind_ctor(self, call):
+        """constructor parameter -> argument expression at this construction."""
+        names = self.init_params()
+        out = {}
+        for i, a_ in enumerate(call.args):
+            if isinstance(a_, ast.Starred):
+                break
+            if i < len(names):
+                out[names[i]] = a_
+        for k in call.keywords:
+            if k.arg in names:
+                out[k.arg] = k.value
+        return out
+
+    def new(self, values, default=1):
+        """a fresh instance: constructor parameters take `values` (name -> value), every other parameter `default`."""
+        rec = Record()
+        args = {p: values.get(p, default) for p in self.init_params()}
+        if "__init__" in self.methods:
+            self.call(rec, "__init__", **args)
+        elif self.dataclass:
+            for nm, v in self._dc_fields():
+                if self._dc_init(v) and nm in args and (v is None or nm in values or self._dc_default(v) is _NOTHING):
+                    rec.fields[nm] = args[nm]
+                else:
+                    d = self._dc_default(v)
+                    if d is not _NOTHING:
+                        rec.fields[nm] = d
+            if "__post_init__" in self.methods:
+                self.call(rec, "__post_init__")
+        else:
+            raise CannotEval(f"class {self.cls.name} has neither __init__ nor @dataclass fields")
+        return rec
+
+    def _dc_default(self, v):
+        if v is None:
+            return _NOTHING
+        if self._dc_field_call(v):
+            d = source.arg_of(v, None, "default")
+            if d is not None:
+                return minieval.ev(d, {})
+            fac = source.arg_of(v, None, "default_factory")
+            if fac is not None:
+                nm = dotted(fac)
+                if nm in ("list", "dict", "set"):
+                    return {"list": list, "dict": dict, "set": set}[nm]()
+                raise CannotEval(f"default_factory {u(fac)}")
+            return _NOTHING
+        return minieval.ev(v, {})
+
+    # -- evaluation -----------------------------------------------------------------------------------------------------------------------
+    def call(self, rec, name, *args, **kw):
+        fn = self.methods.get(name)
+        if fn is None:
+            raise CannotEval(f"no method {name}")
+        names = [p for p in params_of(fn)][1:]
+        env = dict(self.globals)
+        if params_of(fn):
+            env[params_of(fn)[0]] = rec
+        env.update(zip(names, args))
+        env.update(kw)
+        dflt = fn.args.defaults
+        for p, dv in zip(names[len(names) - len(dflt):], dflt):
+            if p not in env:
+                env[p] = minieval.ev(dv, {})
+        if any(p not in env for p in names):
+            raise CannotEval(f"{name}: unbound parameter")
+        self._depth += 1
+        try:
+            if self._depth > 6:
+                raise CannotEval("call depth")
+            self.run(fn.body, env)
+        except _Ret as r:
+            return r.v
+        finally:
+            self._depth -= 1
+        return None
+
+    def ev(self, e, env):
+        """minieval.ev plus: method calls / property reads on a modelled record, max / min of several arguments."""
+        M = self
+        env2 = dict(env)
+        k = [0]
+
+        def bound(v):
+            k[0] += 1
+            nm = f"_v{k[0]}_"
+            env2[nm] = v
+            return ast.Name(id=nm, ctx=ast.Load())
+
+        class T(ast.NodeTransformer):
+            def visit_Call(self, n):
+                f = n.func
+                if isinstance(f, ast.Attribute) and isinstance(f.value, ast.Name) and isinstance(env2.get(f.value.id), Record) and f.attr in M.methods and f.attr not in env2[f.value.id].fields:
+                    args = [minieval.ev(T().visit(a_), env2) for a_ in n.args]
+                    kws = {kk.arg: minieval.ev(T().visit(kk.value), env2) for kk in n.keywords if kk.arg}
+                    return bound(M.call(env2[f.value.id], f.attr, *args, **kws))
+                self.generic_visit(n)
+                if dotted(f) in ("max", "min") and len(n.args) >= 2 and not n.keywords:
+                    return ast.Call(func=f, args=[ast.List(elts=list(n.args), ctx=ast.Load())], keywords=[])
+                if dotted(f) in ("math.floor", "math.ceil", "math.trunc") and len(n.args) == 1 and not n.keywords:
+                    import math
+                    v = minieval.ev(n.args[0], env2)
+                    if isinstance(v, (int, float)) and not isinstance(v, bool):
+                        return bound(getattr(math, f.attr)(v))
+                return n
+
+            def visit_Attribute(self, n):
+                self.generic_visit(n)
+                if isinstance(n.ctx, ast.Load) and isinstance(n.value, ast.Name) and isinstance(env2.get(n.value.id), Record) and n.attr in M.props and n.attr not in env2[n.value.id].fields:
+                    return bound(M.call(env2[n.value.id], n.attr))
+                return n
+
+        return minieval.ev(T().visit(source.clone(e)), env2)
+
+    def _store(self, t, val, env):
+        if isinstance(t, ast.Name):
+            env[t.id] = val
+        elif isinstance(t, ast.Attribute):
+            recv = self.ev(t.value, env)
+            if not isinstance(recv, Record):
+                raise CannotEval(f"store to {u(t)}")
+            recv.fields[t.attr] = val
+        elif isinstance(t, (ast.Tuple, ast.List)) and isinstance(val, (list, tuple)) and len(val) == len(t.elts):
+            for x, v in zip(t.elts, val):
+                self._store(x, v, env)
+        else:
+            raise CannotEval(f"store to {u(t)}")
+
+    def run(self, stmts, env):
+        for s in stmts:
+            if isinstance(s, ast.Expr):
+                v = s.value
+                if isinstance(v, ast.Constant) or is_logging_call(v):
+                    continue
+                if isinstance(v, ast.Call) and isinstance(v.func, ast.Attribute) and v.func.attr in ("append", "clear", "extend") and not v.keywords:
+                    recv = self.ev(v.func.value, env)
+                    if isinstance(recv, list):
+                        getattr(recv, v.func.attr)(*[self.ev(a_, env) for a_ in v.args])
+                        continue
+                self.ev(v, env)
+            elif isinstance(s, ast.Assign):
+                val = self.ev(s.value, env)
+                for t in s.targets:
+                    self._store(t, val, env)
+            elif isinstance(s, ast.AugAssign):
+                load = ast.parse(u(s.target), mode="eval").body
+                self._store(s.target, self.ev(ast.BinOp(left=load, op=s.op, right=s.value), env), env)
+            elif isinstance(s, ast.If):
+                self.run(s.body if self.ev(s.test, env) else s.orelse, env)
+            elif isinstance(s, ast.Return):
+                raise _Ret(None if s.value is None else self.ev(s.value, env))
+            elif isinstance(s, ast.Pass):
+                pass
+            else:
+                raise CannotEval(f"statement {type(s).__name__} at line {getattr(s, 'lineno', '?')}")
+
+
+_NOTHING = object()
+
+
+def _decide(chk, rid, text, node, fn, key=None):
+    """record an obligation that is decided on values: fn() -> (ok, detail); an extracted piece that cannot be interpreted is 'not recognised' (exit 2), never a verdict."""
+    try:
+        ok, detail = fn()
+    except (CannotEval, RecursionError, ZeroDivisionError, TypeError, ValueError, KeyError, AttributeError) as x:
+        chk.unknown(rid, f"{text}: cannot be decided on values ({type(x).__name__}: {str(x)[:100]})", node)
+        return None
+    return chk.ob(rid, text, ok, node, detail, key=key)
+
+
+# ---------------------------------------------------------------------------------------------------------------------------------------
+# roles of the calculator
+
+
+def _state_expr(e, A):
+    """(kind, key expression) if e reads the per-task entry of self.<A>: self.A[k] -> item, self.A.get(k) -> get, self.A.setdefault(k, x) -> setdefault; else None."""
+    if isinstance(e, ast.NamedExpr):
+        e = e.value
+    if isinstance(e, ast.Subscript) and is_self_attr(e.value, A) and not isinstance(e.slice, ast.Slice):
+        return "item", e.slice
+    if isinstance(e, ast.Call) and isinstance(e.func, ast.Attribute) and is_self_attr(e.func.value, A) and e.args and not e.keywords:
+        if e.func.attr == "get" and (len(e.args) == 1 or (len(e.args) == 2 and source.is_const(e.args[1]) and e.args[1].value is None)):
+            return "get", e.args[0]
+        if e.func.attr == "setdefault" and len(e.args) == 2:
+            return "setdefault", e.args[0]
+    return None
+
+
+def _state_roles(drv, tm):
+    """(A, TS, ctor call, function holding it): the class whose instances a method of the calculator stores under a key of self.<A>."""
+    classes = {}
+    for c in drv.classes():
+        classes.setdefault(c.name, c)
+    found = []
+    for f in tm.values():
+        fdefs = local_defs(f)
+
+        def ctor_of(v):
+            if isinstance(v, ast.Name) and v.id in fdefs:
+                v = fdefs[v.id]
+            return v if isinstance(v, ast.Call) and last_attr(v.func) in classes else None
+
+        for n in walk_body(f):
+            if isinstance(n, ast.Assign) and ctor_of(n.value) is not None:
+                for t in n.targets:
+                    if isinstance(t, ast.Subscript) and is_self_attr(t.value):
+                        found.append((t.value.attr, classes[last_attr(ctor_of(n.value).func)], ctor_of(n.value), f))
+            elif isinstance(n, ast.Call) and isinstance(n.func, ast.Attribute) and n.func.attr == "setdefault" and is_self_attr(n.func.value) and len(n.args) == 2 and ctor_of(n.args[1]) is not None:
+                found.append((n.func.value.attr, classes[last_attr(ctor_of(n.args[1]).func)], ctor_of(n.args[1]), f))
+    if len({(a_, c.name) for a_, c, _, _ in found}) != 1 or len(found) != 1:
+        raise AnchorMissing("the one place where ThroughputCalculator stores a new per-task state object under the task key (self.<attr>[task] = <State>(...))")
+    return found[0]
+
+
+def _returns_state(H, v, A):
+    """v is a call of a helper every return of which hands out the task's entry of self.<A>."""
+    fn = H.callee(v) if isinstance(v, ast.Call) else None
+    if fn is None:
+        return False
+    rets = [n for n in walk_body(fn) if isinstance(n, ast.Return)]
+
+    def binds(n):
+        return _state_expr(n.value, A) is not None or any(isinstance(t, ast.Subscript) and is_self_attr(t.value, A) for t in n.targets)
+
+    def state_value(x):
+        if x is None:
+            return False
+        if _state_expr(x, A) is not None:
+            return True
+        if isinstance(x, ast.Name):
+            asg = [n for n in walk_body(fn) if isinstance(n, ast.Assign) and any(isinstance(t, ast.Name) and t.id == x.id for t in n.targets)]
+            return bool(asg) and all(binds(n) for n in asg)
+        return False
+
+    return bool(rets) and all(state_value(r.value) for r in rets)
+
+
+def _attrs_from_params(fn):
+    """{attribute of self: parameter} for the attributes a method assigns a value that depends on one of its parameters."""
+    ps = set(params_of(fn)[1:])
+    defs = local_defs(fn)
+    out = {}
+    for n in walk_body(fn):
+        if isinstance(n, (ast.Assign, ast.AugAssign)):
+            tg = n.targets if isinstance(n, ast.Assign) else [n.target]
+            used = [x.id for x in ast.walk(source.inline_node(n.value, defs)) if isinstance(x, ast.Name) and x.id in ps]
+            if used:
+                for t in tg:
+                    if is_self_attr(t):
+                        out[t.attr] = used[0]
+    return out
+
+
+def _self_reads(fn):
+    return {x.attr for x in ast.walk(fn) if is_self_attr(x) and isinstance(x.ctx, ast.Load)}
+
+
+class _Emit:
+    """one place where a value (abs time, rel time, sample type, throughput, unit) is produced: `node` is the append / comprehension in the analysed function, `tup` the 5-tuple
+    as a function of that function's names (locals and expression helpers resolved)."""
+
+    def __init__(self, node, tup):
+        self.node = node
+        self.tup = tup
+        self.elts = tup.elts
+
+
+def _emits(H, func, keep=()):
+    out = []
+    for n in walk_body(func):
+        cand = None
+        if isinstance(n, ast.Call) and isinstance(n.func, ast.Attribute) and n.func.attr == "append" and len(n.args) == 1 and not n.keywords:
+            cand = n.args[0]
+        elif isinstance(n, ast.AugAssign) and isinstance(n.op, ast.Add) and isinstance(n.value, (ast.List, ast.Tuple)) and len(n.value.elts) == 1:
+            cand = n.value.elts[0]
+        elif isinstance(n, (ast.ListComp, ast.GeneratorExp)):
+            cand = n.elt
+        if cand is None:
+            continue
+        t = H.resolve(cand, func, keep)
+        for _ in range(3):
+            # locals bound more than once (e.g. a unit string built per branch): the definition that reaches this statement
+            m = {}
+            for x in ast.walk(t):
+                if isinstance(x, ast.Name) and isinstance(x.ctx, ast.Load) and x.id not in keep and x.id not in m:
+                    d = _reaching(func, x.id, n)
+                    if d is not None:
+                        m[x.id] = d
+            if not m:
+                break
+            t = H.resolve(_subst(t, m), func, keep)
+        if isinstance(t, ast.Tuple) and len(t.elts) == 5:
+            out.append(_Emit(n, t))
+    return out
+
+
+def _sample(**over):
+    f = dict(absolute_time=12.0, relative_time=2.0, time_period=0.5, total_ops=5, total_ops_unit="docs", sample_type=1, throughput=None, task="t", client_id=0)
+    f.update(over)
+    return Record(**f)
+
+
+def _as_fstring(e):
+    """fresh copy of e in which `"..%s.." % x`, `"..%s.." % (x, y)` and `"..{}..".format(x)` are spelled as the equivalent f-string (only plain %s / {} placeholders)."""
+
+    def join(parts, args):
+        vals = []
+        for i, part in enumerate(parts):
+            if part:
+                vals.append(ast.Constant(value=part))
+            if i < len(args):
+                vals.append(ast.FormattedValue(value=args[i], conversion=-1, format_spec=None))
+        return ast.JoinedStr(values=vals)
+
+    class T(ast.NodeTransformer):
+        def visit_BinOp(self, n):
+            self.generic_visit(n)
+            if isinstance(n.op, ast.Mod) and isinstance(n.left, ast.Constant) and isinstance(n.left.value, str):
+                args = list(n.right.elts) if isinstance(n.right, ast.Tuple) else [n.right]
+                parts = n.left.value.split("%s")
+                if len(parts) == len(args) + 1 and "%" not in "".join(parts):
+                    return join(parts, args)
+            return n
+
+        def visit_Call(self, n):
+            self.generic_visit(n)
+            if isinstance(n.func, ast.Attribute) and n.func.attr == "format" and isinstance(n.func.value, ast.Constant) and isinstance(n.func.value.value, str) and not n.keywords:
+                parts = n.func.value.value.split("{}")
+                if len(parts) == len(n.args) + 1 and "{" not in "".join(parts):
+                    return join(parts, list(n.args))
+            return n
+
+    return T().visit(source.clone(e))
+
+
+def _unit_value(unit, ts_text, others):
+    """the unit string an emit site builds when the sample that timestamps the value counts 'docs' and every other sample in sight counts 'ops'; falls back to the shape
+    '<anything>/s' when the unit does not come from a sample at all. Returns (value or None, how)."""
+    unit = _as_fstring(unit)
+
+    class T(ast.NodeTransformer):
+        def generic_visit(self, n):
+            if ts_text is not None and isinstance(n, ast.expr) and u(n) == ts_text:
+                return ast.Name(id="_ts_", ctx=ast.Load())
+            return super().generic_visit(n)
+
+    e = T().visit(source.clone(unit))
+    env = dict(others)
+    env["_ts_"] = _sample(total_ops_unit="docs")
+    try:
+        return minieval.ev(e, env), "value"
+    except CannotEval:
+        pass
+    # shape: every non-constant part stands for the unit
+    class S(ast.NodeTransformer):
+        def visit_FormattedValue(self, n):
+            return ast.FormattedValue(value=ast.Constant(value="docs"), conversion=n.conversion, format_spec=n.format_spec)
+
+        def visit_BinOp(self, n):
+            if isinstance(n.op, ast.Add):
+                l_, r_ = n.left, n.right
+                if isinstance(r_, ast.Constant) and isinstance(r_.value, str) and not isinstance(l_, (ast.Constant, ast.BinOp, ast.JoinedStr)):
+                    return ast.BinOp(left=ast.Constant(value="docs"), op=n.op, right=r_)
+            return self.generic_visit(n)
+
+    try:
+        return minieval.ev(S().visit(source.clone(unit)), {}), "shape"
+    except CannotEval:
+        return None, "?"
+
+
+# ---------------------------------------------------------------------------------------------------------------------------------------
+# shared with C07 (O7.5)
 
 
 def lazy_batch_rule(chk, rid, drv):
@@ -20,15 +586,26 @@ def lazy_batch_rule(chk, rid, drv):
     if calc is None:
         raise AnchorMissing("ThroughputCalculator.calculate")
     g = cfg_of(calc)
-    lazy_defs = [n for n in walk_body(calc) if isinstance(n, ast.Assign) and isinstance(n.targets[0], ast.Name) and isinstance(n.value, ast.Call)
-                 and dotted(n.value.func) in ("itertools.chain", "chain", "iter", "map", "filter", "zip")]
+    tcm = drv.methods(TC)
+
+    def lazy_call(c):
+        """a call that yields a single-use iterator: itertools.chain & co, or a helper of the calculator that returns one (extracted merge)."""
+        if not isinstance(c, ast.Call):
+            return False
+        if dotted(c.func) in ("itertools.chain", "chain", "iter", "map", "filter", "zip"):
+            return True
+        h = tcm.get(c.func.attr) if isinstance(c.func, ast.Attribute) and dotted(c.func.value) in ("self", "cls", TC.name) else None
+        return h is not None and h is not calc and any(isinstance(r, ast.Return) and isinstance(r.value, ast.Call) and dotted(r.value.func) in ("itertools.chain", "chain") for r in walk_body(h))
+
+    lazy_defs = [n for n in walk_body(calc) if isinstance(n, ast.Assign) and isinstance(n.targets[0], ast.Name) and lazy_call(n.value)]
     for ld in lazy_defs:
         nm = ld.targets[0].id
         scope = source.enclosing(ld, (ast.For, ast.While)) or calc  # the binding lives for one iteration of the per-task loop
-        uses = [x for x in ast.walk(scope) if isinstance(x, ast.Name) and x.id == nm and isinstance(x.ctx, ast.Load) and x not in list(ast.walk(ld)) and x.lineno >= ld.lineno]
+        inside = {id(x) for x in ast.walk(ld)}
+        uses = [x for x in ast.walk(scope) if isinstance(x, ast.Name) and x.id == nm and isinstance(x.ctx, ast.Load) and id(x) not in inside and x.lineno >= ld.lineno]
         bad = [x for x in uses if not (isinstance(source.parent(x), ast.Call) and dotted(source.parent(x).func) in ("sorted", "list", "tuple") and source.parent(x).args and source.parent(x).args[0] is x)]
         ok = len(uses) >= 1 and not bad and len(uses) == 1
-        chk.ob(rid, f"the lazily merged batch `{nm}` is consumed exactly once, by the materialising sort", ok, bad[0] if bad else (uses[0] if uses else calc),
+        chk.ob(rid, f"the lazily merged batch `{nm}` is consumed exactly once, by the materialising sort", ok, bad[0] if bad else (uses[0] if uses else ld),
                "" if ok else f"{len(uses)} read(s); `{short(source.enclosing_stmt(bad[0]), 60) if bad else ''}` consumes elements of the single-use iterator before / besides the sort: those samples are never counted",
                key=f"esrally/driver/driver.py:ThroughputCalculator.calculate:lazy-batch:{nm}")
         # sources of the chain and their aliases
@@ -56,14 +633,24 @@ def lazy_batch_rule(chk, rid, drv):
         chk.ob(rid, f"no source of the lazy batch `{nm}` is mutated before it is materialised", not muts, muts[0] if muts else ld,
                "" if not muts else f"`{short(source.enclosing_stmt(muts[0]), 60)}` runs while the chain has not been read yet: the carried-over samples vanish from this round's throughput",
                key=f"esrally/driver/driver.py:ThroughputCalculator.calculate:lazy-batch-sources:{nm}")
-    merges = [n for n in walk_body(calc) if isinstance(n, ast.Call) and dotted(n.func) in ("itertools.chain", "chain")]
-    chk.ob(rid, "merged batch located", bool(lazy_defs) or bool(merges), calc, f"lazy locals: {sorted(n.targets[0].id for n in lazy_defs)}")
+    merges = [n for n in walk_body(calc) if lazy_call(n) and dotted(n.func) not in ("iter", "map", "filter", "zip")]
+    if lazy_defs or merges:
+        chk.ob(rid, "merged batch located", True, calc, f"lazy locals: {sorted(n.targets[0].id for n in lazy_defs)}")
+    else:
+        # no lazy iterator in sight (eager concatenation, or a helper): there is nothing single-use to protect - whether the batch is complete is the merge obligation's business
+        eager = [n for n in walk_body(calc) if (isinstance(n, ast.BinOp) and isinstance(n.op, ast.Add) and any(isinstance(x, ast.Attribute) for x in (n.left, n.right)))
+                 or (isinstance(n, (ast.List, ast.Tuple)) and any(isinstance(x, ast.Starred) for x in n.elts))]
+        if eager:
+            chk.ob(rid, "merged batch located", True, eager[0], "eager concatenation: no single-use iterator")
+        else:
+            chk.unknown(rid, "no itertools.chain / eager concatenation of new and carried-over samples located in calculate()", calc)
 
 
 # ---------------------------------------------------------------------------------------------------------------------------------------
 # obligations added after the defect hunt (F23 repaired; F49, F50, F51 known findings)
 
 _PRODUCER_ID = ("client_id", "worker_id")  # fields / parameters that name the producer of a sample (Sample.client_id, UpdateSamples.client_id == worker id, JoinPointReached.worker_id)
+_TAKE_ONE = ("get_nowait", "popleft", "pop", "get")
 
 
 def _self_root(e):
@@ -76,15 +663,23 @@ def _self_root(e):
     return None
 
 
-def _draining_properties(drv):
-    """names of properties in the module whose getter EMPTIES a queue (get_nowait / popleft / pop): reading such a property consumes what it returns."""
-    out = set()
+def _takes_one(x):
+    return isinstance(x, ast.Call) and (last_attr(x.func) in ("get_nowait", "popleft") or (last_attr(x.func) == "pop" and not any(isinstance(a_, ast.Constant) and isinstance(a_.value, str) for a_ in x.args)))
+
+
+def _bulk_clear(x):
+    """`self.<...>.clear()`: empties a container of the object in one go."""
+    return isinstance(x, ast.Call) and isinstance(x.func, ast.Attribute) and x.func.attr == "clear" and not x.args and _self_root(x.func.value) is not None
+
+
+def _draining_getters(drv):
+    """{property name: getter} for the properties in the module whose getter EMPTIES a container of the object (element by element: get_nowait / popleft / pop, or in bulk: clear):
+    reading such a property consumes what it returns."""
+    out = {}
     for c in drv.classes():
         for f in c.body:
-            if isinstance(f, source.FUNC_TYPES) and any(dotted(d) == "property" for d in f.decorator_list) \
-                    and any(isinstance(x, ast.Call) and (last_attr(x.func) in ("get_nowait", "popleft") or (last_attr(x.func) == "pop" and not any(isinstance(a_, ast.Constant) and isinstance(a_.value, str) for a_ in x.args)))
-                            for x in ast.walk(f)):
-                out.add(f.name)
+            if isinstance(f, source.FUNC_TYPES) and any(dotted(d) == "property" for d in f.decorator_list) and any(_takes_one(x) or _bulk_clear(x) for x in ast.walk(f)):
+                out[f.name] = f
     return out
 
 
@@ -92,20 +687,23 @@ def sampler_handover_rule(chk, drv):
     """F23. A worker's sampler object is the only place where the samples of the running load generator live until they are shipped. Overwriting the attribute that holds it
     (a fresh Sampler for the next round of an over-committed parallel element, or None at a join point) drops whatever the old one still holds: those operations are counted ZERO
     times by every throughput value. Necessary: on every path to such an overwrite the sampler has been drained, and nothing that lets a load generator add samples (starting one,
-    blocking on one) lies between the drain and the overwrite."""
+    blocking on one) lies between the drain and the overwrite. The drain itself hands out every element it removes (the load generator adds samples concurrently: a copy followed by
+    a bulk clear() drops what arrived in between)."""
     chk.rule("O6.6", "a worker never drops a sampler that may still hold samples: every overwrite of the attribute holding the sampler (outside __init__) is preceded on every path by a "
              "drain (the method that ships <sampler>.<draining property> as UpdateSamples) with no executor activity (starting a load generator, blocking on its future) between "
-             "the drain and the overwrite", 3,
+             "the drain and the overwrite; the draining getter removes elements one at a time and returns each of them (no copy-then-clear)", 3,
              "a parallel element with fewer clients than tasks (several rounds between two join points): the load generator finishes between the periodic drain of the wake-up "
              "handler and its done() check; the samples added in that window are never shipped, their operations are counted zero times")
     W = drv.cls("Worker")
     wm = drv.methods(W)
     drv.cls("UpdateSamples")
-    dprops = _draining_properties(drv)
+    getters = _draining_getters(drv)
+    dprops = set(getters)
     if not dprops:
         raise AnchorMissing("a draining property (getter empties a queue) in esrally/driver/driver.py")
     # role: drain methods of the worker and the attribute that holds the sampler
     drains = {}
+    used_props = set()
     for name, f in wm.items():
         fdefs = local_defs(f)
         for c in walk_body(f):
@@ -117,12 +715,30 @@ def sampler_handover_rule(chk, drv):
                         for x in ast.walk(source.inline_node(a_, fdefs)):
                             if isinstance(x, ast.Attribute) and x.attr in dprops and is_self_attr(x.value):
                                 drains[name] = x.value.attr
+                                used_props.add(x.attr)
     attrs = sorted(set(drains.values()))
-    chk.ob("O6.6", "drain method of the worker and the attribute holding the sampler located", len(attrs) == 1, W,
-           f"drain method(s) {sorted(drains)} ship self.{attrs[0] if attrs else '?'}.<{'/'.join(sorted(dprops))}> as UpdateSamples")
     if len(attrs) != 1:
         raise AnchorMissing("Worker method that ships self.<sampler>.<draining property> as UpdateSamples (exactly one sampler attribute)")
+    chk.ob("O6.6", "drain method of the worker and the attribute holding the sampler located", True, W,
+           f"drain method(s) {sorted(drains)} ship self.{attrs[0]}.<{'/'.join(sorted(dprops))}> as UpdateSamples")
     sattr = attrs[0]
+    # the getter hands out what it removes
+    for pn in sorted(used_props):
+        gf = getters[pn]
+        locks = [w for w in ast.walk(gf) if isinstance(w, (ast.With, ast.AsyncWith)) and any(("lock" in u(it.context_expr).lower() or "mutex" in u(it.context_expr).lower()) for it in w.items)]
+
+        def locked(x):
+            return any(w in list(source.ancestors(x)) for w in locks)
+
+        bulk = [x for x in ast.walk(gf) if _bulk_clear(x) and not locked(x)]
+        dropped = [x for x in ast.walk(gf) if _takes_one(x) and isinstance(source.parent(x), ast.Expr)]
+        ok = not bulk and not dropped
+        owner = source.enclosing_class(gf)
+        chk.ob("O6.6", f"{owner.name if owner else '?'}.{pn}: the draining getter returns every element it removes", ok, (bulk or dropped or [gf])[0],
+               "" if ok else (f"`{short(bulk[0], 50)}` empties the container in one go after it has been copied: a sample the load generator adds between the copy and the clear is "
+                              "removed without ever being returned - its operations are counted zero times" if bulk else
+                              f"`{short(dropped[0], 50)}` removes an element and discards it"),
+               key=f"{_D}:{owner.name if owner else '?'}.{pn}:drain-returns-every-removed-element")
     # a worker method that calls a drain method on every normal path is a drain itself (extracted helper)
     grown = True
     while grown:
@@ -179,26 +795,25 @@ def sampler_handover_rule(chk, drv):
         raise AnchorMissing(f"an assignment of self.{sattr} in a Worker method other than __init__")
 
 
-def passthrough_decision_rule(chk, drv, calc, ctt, mtt, tp_field):
+def passthrough_decision_rule(chk, H, calc, ctt, mtt, tp_field, key_param):
     """F49. Whether a task's throughput is runner-supplied (pass-through) or calculated is a property of the TASK. A decision taken anew for every batch from the batch alone cannot be
     stable: a failed request of a pass-through task carries throughput None, so a batch that starts with (or consists of) such a sample is decided differently from the next one.
     Necessary: the decision consults state kept per task across calls (sticky) and does not hinge on one positional sample of the batch."""
-    from sa import pat
     chk.rule("O6.7", "pass-through or calculate is decided per TASK and stays decided: the dispatch condition consults calculator state kept under the task key across calls and does not "
              "read the runner-supplied throughput of one positional sample of the current batch", 1,
              "a task whose runner supplies throughput (wait-for-transform) with one failed request (throughput None): cuts 3 / 2|1 emit a (None, 'ops/s') record, cut 1|2 discards the "
              "supplied 15000 and reports a calculated value, cut 1|1|1 inserts a calculated 0.0 - same samples, different results")
-    calls = {f_.name: [c for c in walk_body(calc) if isinstance(c, ast.Call) and is_self_attr(c.func, f_.name)] for f_ in (ctt, mtt)}
+    calls = {f_.name: [c for c in walk_body(calc) if isinstance(c, ast.Call) and H.callee(c) is f_] for f_ in (ctt, mtt)}
     if not calls[ctt.name] or not calls[mtt.name]:
-        raise AnchorMissing("calls of calculate_task_throughput and map_task_throughput in ThroughputCalculator.calculate")
+        raise AnchorMissing(f"calls of {ctt.name} and {mtt.name} in ThroughputCalculator.calculate")
     cdefs = local_defs(calc)
     c0 = calls[ctt.name][0]
     loop = source.enclosing(c0, (ast.For, ast.While))
     if loop is None or source.enclosing_func(loop) is not calc:
         loop = None
-    key_arg = source.bind_args(c0, ctt).get(source.params_of(ctt)[1])
+    key_arg = source.bind_args(c0, ctt).get(key_param)
     if key_arg is None:
-        raise AnchorMissing("task key passed to calculate_task_throughput")
+        raise AnchorMissing(f"task key passed to {ctt.name}")
     key_txt = inline(key_arg, cdefs)
     facts = []
     for c in calls[ctt.name] + calls[mtt.name]:
@@ -206,7 +821,7 @@ def passthrough_decision_rule(chk, drv, calc, ctt, mtt, tp_field):
             if not any(f_ is x for x in facts):
                 facts.append(f_)
     if not facts:
-        raise AnchorMissing("the condition that selects calculate_task_throughput / map_task_throughput in calculate()")
+        raise AnchorMissing(f"the condition that selects {ctt.name} / {mtt.name} in calculate()")
     inl, seen_txt = [], set()
     for f_ in facts:
         e = source.inline_node(f_, cdefs)
@@ -240,7 +855,7 @@ def passthrough_decision_rule(chk, drv, calc, ctt, mtt, tp_field):
            key=f"{_D}:ThroughputCalculator.calculate:pass-through-decision-per-task")
 
 
-def unit_source_rule(chk, drv, TS, TC, ctt, emits, L, stats_var):
+def unit_source_rule(chk, TC, ctt, emits, L, stats_var, batch, sampled):
     """F50. The unit of a calculated value names what the running count counts (docs, pages, ops ...). The sample that happens to close a bucket, or to be the last one of a batch, may be
     a failed request, which is recorded with weight 0 and the placeholder unit 'ops'. Necessary: the unit does not come from that sample but from a source that is independent of where the
     bucket / the batch ends (task-level state that not every sample overwrites)."""
@@ -248,59 +863,34 @@ def unit_source_rule(chk, drv, TS, TC, ctt, emits, L, stats_var):
              "unit 'ops'): it is read from a batch-independent source, e.g. per-task state that is not overwritten by every sample", 2,
              "a bulk task (docs) with one failed request under on-error=continue: if that sample closes a bucket / ends a batch the value for N docs is stored as 'ops/s'; which record is "
              "hit, and the unit the summary report shows, depends on the cut")
-    batch = source.params_of(ctt)[2] if len(source.params_of(ctt)) > 2 else None
-    if batch is None:
-        raise AnchorMissing("batch parameter of calculate_task_throughput")
-    # names that hold one sample of the batch: loop variables over the batch, positional elements of it, and copies of those
-    sampled = set()
-    changed = True
-    while changed:
-        changed = False
-        for n in walk_body(ctt):
-            new = set()
-            if isinstance(n, (ast.For, ast.comprehension)) and any(isinstance(x, ast.Name) and x.id == batch for x in ast.walk(n.iter)):
-                new = {x.id for x in ast.walk(n.target) if isinstance(x, ast.Name)}
-            elif isinstance(n, ast.Assign):
-                v = n.value
-                element = isinstance(v, ast.Subscript) and isinstance(v.value, ast.Name) and v.value.id == batch and not isinstance(v.slice, ast.Slice)
-                if (isinstance(v, ast.Name) and v.id in sampled) or element:
-                    new = {t.id for t in n.targets if isinstance(t, ast.Name)}
-            if new - sampled:
-                sampled |= new
-                changed = True
-    if not sampled:
-        raise AnchorMissing("sample loop over the batch in calculate_task_throughput")
     for e in emits:
-        unit = e.args[0].elts[4]
-        srcs = [v.value for v in unit.values if isinstance(v, ast.FormattedValue)] if isinstance(unit, ast.JoinedStr) else [unit]
-        bad = [x for s in srcs for x in ast.walk(s) if (isinstance(x, ast.Name) and x.id in sampled) or
-               (isinstance(x, ast.Subscript) and isinstance(x.value, ast.Name) and x.value.id == batch)]
+        unit = e.elts[4]
+        bad = [x for x in ast.walk(unit) if (isinstance(x, ast.Name) and x.id in sampled) or (isinstance(x, ast.Subscript) and isinstance(x.value, ast.Name) and x.value.id == batch)]
         # a unit kept in the per-task state must not be overwritten by every sample either (that is the last sample again)
         blind = []
-        for s in srcs:
+        for s in ast.walk(unit):
             if isinstance(s, ast.Attribute) and isinstance(s.value, ast.Name) and s.value.id == stats_var:
                 for n in ast.walk(TC):
                     if isinstance(n, ast.Assign) and any(isinstance(t, ast.Attribute) and t.attr == s.attr and isinstance(t.value, ast.Name) and t.value.id in ("self", stats_var) for t in n.targets):
                         fn = source.enclosing_func(n)
-                        if fn is None or fn.name == "__init__":
+                        if fn is None or fn.name in ("__init__", "__post_init__"):
                             continue
                         if not guards(n, path_sensitive=True):
                             blind.append(n)
-        where = "bucket-closing-sample" if L in list(source.ancestors(e)) else "last-sample-of-batch"
-        ok = bool(srcs) and not bad and not blind
-        chk.ob("O6.8", f"unit of the value emitted {'when a bucket closes' if where == 'bucket-closing-sample' else 'by the final-sample rule'} comes from a batch-independent source", ok, e,
+        where = "bucket-closing-sample" if L in list(source.ancestors(e.node)) else "last-sample-of-batch"
+        ok = not bad and not blind
+        chk.ob("O6.8", f"unit of the value emitted {'when a bucket closes' if where == 'bucket-closing-sample' else 'by the final-sample rule'} comes from a batch-independent source", ok, e.node,
                "" if ok else (f"`{u(unit)}`: `{u(bad[0])}` is the sample that {'closes the bucket' if where == 'bucket-closing-sample' else 'ends the batch'}; "
                               "a failed request there (weight 0, unit 'ops') relabels the task's docs/pages as 'ops/s'" if bad else
                               f"`{short(blind[0], 60)}` overwrites the per-task unit with every sample: the last sample decides again"),
                key=f"{_D}:ThroughputCalculator.calculate_task_throughput:unit-source:{where}")
 
 
-def low_water_mark_rule(chk, drv, TS, TC):
+def low_water_mark_rule(chk, drv, TS, TC, I):
     """F51. Workers flush on their own timers, so at any post-processing call the samples of different workers reach up to different times. A bucket may only be closed up to the time
     ALL producers of the task have reported (low-water mark); closing it at the newest sample of ANY client misses the operations of slower workers for good (the stored value stays,
     late samples older than the current interval never complete a bucket). Necessary: either the calculator distinguishes the producers of the samples it aggregates, or the driver holds raw
     samples back by a per-producer watermark before it hands them to post-processing. Neither is possible without reading the producer's identity on that path."""
-    from sa.classes import is_logging_call
     chk.rule("O6.9", "the time that closes a bucket is a low-water mark over the producers (clients / workers) of the task: the interval update inside the calculator depends on which "
              "client produced a sample, or the driver holds raw samples back by per-producer state before handing them to post-processing", 1,
              "two workers whose flushes reach the driver up to t=30 and t=25: the values for t in (25,30] miss the second worker's operations (18333 instead of 19967 docs/s) and stay; "
@@ -311,8 +901,8 @@ def low_water_mark_rule(chk, drv, TS, TC):
     ids = [f_ for f_ in _PRODUCER_ID if f_ in fields]
     if not ids:
         raise AnchorMissing("producer identity field (client_id) of Sample")
-    writers = [n for n in ast.walk(TS) if isinstance(n, (ast.Assign, ast.AugAssign)) and any(is_self_attr(t, "interval") for t in (n.targets if isinstance(n, ast.Assign) else [n.target]))
-               and source.enclosing_func(n) is not None and source.enclosing_func(n).name != "__init__"]
+    writers = [n for n in ast.walk(TS) if isinstance(n, (ast.Assign, ast.AugAssign)) and any(is_self_attr(t, I) for t in (n.targets if isinstance(n, ast.Assign) else [n.target]))
+               and source.enclosing_func(n) is not None and source.enclosing_func(n).name not in ("__init__", "__post_init__")]
     if not writers:
         raise AnchorMissing("the TaskStats method that advances the interval")
 
@@ -323,7 +913,7 @@ def low_water_mark_rule(chk, drv, TS, TC):
         return [x for x in ast.walk(root) if isinstance(x, ast.Attribute) and isinstance(x.ctx, ast.Load) and x.attr in _PRODUCER_ID and not is_self_attr(x) and not in_logging(x)]
 
     # (a) inside the calculator
-    in_calc = id_reads(TC)
+    in_calc = id_reads(TC) + (id_reads(TS) if TS not in list(ast.walk(TC)) else [])
     # (b) upstream: the driver method(s) that hand the received raw samples to the post-processor
     pp_classes = {source.enclosing_class(n).name for n in ast.walk(drv.tree) if isinstance(n, ast.Assign) and isinstance(n.value, ast.Call) and last_attr(n.value.func) == TC.name
                   and any(is_self_attr(t) for t in n.targets) and source.enclosing_class(n) is not None}
@@ -367,7 +957,10 @@ def low_water_mark_rule(chk, drv, TS, TC):
            (f"producer identity consulted: `{short(source.enclosing_stmt((in_calc or held_back)[0]), 70)}`" if ok else
             f"`{short(w, 70)}` advances with the newest sample of ANY client: neither ThroughputCalculator nor the hand-over of raw samples to post-processing reads "
             f"{'/'.join(_PRODUCER_ID)} or per-producer state, so a bucket is closed before slower workers' samples for that time span have arrived"),
-           key=f"{_D}:ThroughputCalculator.TaskStats.{fn.name}:bucket-closing-time-low-water-mark")
+           key=f"{_D}:ThroughputCalculator.TaskStats.update_interval:bucket-closing-time-low-water-mark")
+
+
+# ---------------------------------------------------------------------------------------------------------------------------------------
 
 
 def run(chk):
@@ -379,315 +972,895 @@ def run(chk):
         "invocation; each loop iteration ends in exactly one of {finish a bucket, keep the sample as unprocessed}; carried total and unprocessed list are "
         "only written together by the bucket-finishing routine; the unprocessed list is merged into the next batch and cleared once merged; interval is "
         "monotone and division is guarded; the emitted sample type is the monotone per-task type; runner throughput is passed through on `is None` dispatch; unit is '<ops>/s'. "
+        "Roles (state class, running count, attributes of the state, emit sites incl. extracted tuple helpers) are derived from data flow; the small methods of the per-task state "
+        "are decided on representative values (interpreted statement by statement, no repository code runs). "
         "After the defect hunt: a worker drains its sampler before every overwrite of it (O6.6); necessary conditions for a per-task sticky pass-through decision (O6.7), a "
         "batch-independent unit source (O6.8) and a low-water-mark bucket-closing time over the producers (O6.9) - the last three are falsified on the pinned tree (known findings F49-F51)."
     )
     chk.not_decided = "equality of the emitted numbers with ops/elapsed for all streams (numeric), bucket boundaries under out-of-order arrival."
     TC = drv.cls("ThroughputCalculator")
-    TS = drv.cls("ThroughputCalculator.TaskStats")
     tm = drv.methods(TC)
-    sm = drv.methods(TS)
+    H = _Helpers(drv, TC)
     calc = tm.get("calculate")
-    ctt = tm.get("calculate_task_throughput")
-    mtt = tm.get("map_task_throughput")
-    if not (calc and ctt and mtt):
-        raise AnchorMissing("ThroughputCalculator.calculate / calculate_task_throughput / map_task_throughput")
-    g = cfg_of(ctt)
-    defs = local_defs(ctt)
+    if calc is None:
+        raise AnchorMissing("ThroughputCalculator.calculate")
+    sinit = drv.methods(drv.cls("Sample")).get("__init__")
+    sfields = {t.attr for n in walk_body(sinit) if isinstance(n, ast.Assign) for t in n.targets if is_self_attr(t)} if sinit is not None else set()
+    sfields |= set(drv.methods(drv.cls("Sample")))  # properties
+    missing = [f_ for f_ in (_ABS, _REL, _PERIOD, _OPS, _UNIT, _STYPE, _TP, "task") if f_ not in sfields]
+    if missing:
+        raise AnchorMissing(f"field(s) {missing} of class Sample (the vocabulary of the property)")
+    A, TS, ctor, ctor_fn = _state_roles(drv, tm)
+    sm = drv.methods(TS)
+    M = _Model(TS, sm)
+    try:
+        # the sample types as the state's methods may spell them (metrics.SampleType.Warmup / Normal): members of the enum with their integer values
+        st_cls = repo.module("esrally/metrics.py").cls("SampleType")
+        members = {n.targets[0].id: n.value.value for n in st_cls.body if isinstance(n, ast.Assign) and len(n.targets) == 1 and isinstance(n.targets[0], ast.Name) and isinstance(n.value, ast.Constant)}
+        M.globals = {"metrics": Record(SampleType=Record(**members)), "SampleType": Record(**members)}
+    except AnchorMissing:
+        pass
 
-    # the stats object local
-    stats_var = None
-    for n in walk_body(ctt):
-        if isinstance(n, ast.Assign) and isinstance(n.targets[0], ast.Name) and isinstance(n.value, ast.Subscript) and is_self_attr(n.value.value, "task_stats"):
-            stats_var = n.targets[0].id
-    if stats_var is None:
-        raise AnchorMissing("local bound to self.task_stats[task] in calculate_task_throughput")
-    loops = [n for n in walk_body(ctt) if isinstance(n, ast.For)]
+    # ---- the two per-task routines: the one that creates the state, and the one that only maps ---------------------------------------------------------
+    direct = {}
+    for c in walk_body(calc):
+        if isinstance(c, ast.Call):
+            fn = H.callee(c)
+            if fn is not None and fn.name in tm and fn is not calc:
+                direct.setdefault(fn.name, []).append(c)
+    ctt_c = [m for m in direct if any(f_ is ctor_fn for f_ in H.closure(tm[m]))]
+    mtt_c = [m for m in direct if m not in ctt_c and _emits(H, tm[m])]
+    if len(ctt_c) != 1 or len(mtt_c) != 1:
+        raise AnchorMissing("the routine that calculates a task's throughput (creates the per-task state) and the one that passes runner-supplied values through, both called from calculate()")
+    ctt, mtt = tm[ctt_c[0]], tm[mtt_c[0]]
+    g = cfg_of(ctt)
+    cparams = params_of(ctt)
+
+    # ---- local bound to the task's state ---------------------------------------------------------------------------------------------------------------
+    def binds_state(n):
+        if not isinstance(n, ast.Assign):
+            return []
+        names = [t.id for t in n.targets if isinstance(t, ast.Name)]
+        if names and (_state_expr(n.value, A) is not None or any(isinstance(t, ast.Subscript) and is_self_attr(t.value, A) for t in n.targets) or _returns_state(H, n.value, A)):
+            return names
+        return []
+
+    state_binds = [n for n in walk_body(ctt) if binds_state(n)]
+    svs = {nm for n in state_binds for nm in binds_state(n)}
+    if len(svs) != 1:
+        raise AnchorMissing(f"the local bound to the task's entry of self.{A} in {ctt.name}")
+    stats_var = svs.pop()
+    keys = {u(k[1]) for n in state_binds for k in [_state_expr(n.value, A)] if k} | {u(t.slice) for n in state_binds for t in n.targets if isinstance(t, ast.Subscript) and is_self_attr(t.value, A)}
+    keys |= {u(a_) for n in state_binds if _returns_state(H, n.value, A) for a_ in n.value.args if isinstance(a_, ast.Name) and a_.id in cparams}
+    key_params = [p for p in cparams if p in keys]
+    if not key_params:
+        raise AnchorMissing(f"the parameter of {ctt.name} that is the task key of self.{A}")
+    key_param = key_params[0]
+
+    def on_stats(n, names=None):
+        return isinstance(n, ast.Call) and isinstance(n.func, ast.Attribute) and isinstance(n.func.value, ast.Name) and n.func.value.id == stats_var and n.func.attr in sm \
+            and (names is None or n.func.attr in names)
+
+    stat_calls = [n for n in walk_body(ctt) if on_stats(n)]
+
+    # ---- sample loop, running count, finishing routine ---------------------------------------------------------------------------------------------------
+    def sample_loop(n):
+        if not isinstance(n, ast.For):
+            return None
+        it, tg = n.iter, n.target
+        if isinstance(it, ast.Name) and it.id in cparams and isinstance(tg, ast.Name):
+            return it.id, tg.id
+        if isinstance(it, ast.Call) and dotted(it.func) == "enumerate" and len(it.args) == 1 and isinstance(it.args[0], ast.Name) and it.args[0].id in cparams \
+                and isinstance(tg, ast.Tuple) and len(tg.elts) == 2 and all(isinstance(x, ast.Name) for x in tg.elts):
+            return it.args[0].id, tg.elts[1].id
+        return None
+
+    loops = [n for n in walk_body(ctt) if sample_loop(n)]
     if not loops:
-        raise AnchorMissing("sample loop in calculate_task_throughput")
-    L = loops[0]
-    svar = L.target.id if isinstance(L.target, ast.Name) else None
+        raise AnchorMissing(f"sample loop over the batch parameter in {ctt.name}")
+    augs = {n.target.id for n in walk_body(ctt) if isinstance(n, ast.AugAssign) and isinstance(n.target, ast.Name)}
+    from_state = {t.id for n in walk_body(ctt) if isinstance(n, ast.Assign) and isinstance(n.value, ast.Attribute) and isinstance(n.value.value, ast.Name) and n.value.value.id == stats_var
+                  for t in n.targets if isinstance(t, ast.Name)}
+    handed = [(c, a_.id) for c in stat_calls for a_ in list(c.args) + [k.value for k in c.keywords] if isinstance(a_, ast.Name) and a_.id in (augs | from_state) and a_.id not in cparams]
+    cvars = {nm for _, nm in handed}
+    if len(cvars) != 1:
+        raise AnchorMissing(f"the running count of {ctt.name} (a local that starts from the state, grows per sample and is handed to the state's finishing routine)")
+    cvar = cvars.pop()
+    fb_names = {c.func.attr for c, _ in handed}
+    if len(fb_names) != 1:
+        raise AnchorMissing("the one bucket-finishing routine of the per-task state (receives the running count)")
+    fb = sm[fb_names.pop()]
+    fin_calls = [c for c, _ in handed]
+    L = next((lp for lp in loops if any(isinstance(n, ast.AugAssign) and isinstance(n.target, ast.Name) and n.target.id == cvar for n in ast.walk(lp))), loops[0])
+    batch, svar = sample_loop(L)
     Lh = g.node_of(L)
 
+    def in_loop(n):
+        return L in list(source.ancestors(n))
+
+    # names that hold ONE sample of the batch: the loop variable, positional elements of the batch, copies of those
+    sampled = set()
+    changed = True
+    while changed:
+        changed = False
+        for n in walk_body(ctt):
+            new = set()
+            if isinstance(n, (ast.For, ast.comprehension)) and any(isinstance(x, ast.Name) and x.id == batch for x in ast.walk(n.iter)):
+                new = {x.id for x in ast.walk(n.target) if isinstance(x, ast.Name)}
+                if isinstance(n.iter, ast.Call) and dotted(n.iter.func) == "enumerate" and isinstance(n.target, ast.Tuple) and len(n.target.elts) == 2 and isinstance(n.target.elts[1], ast.Name):
+                    new = {n.target.elts[1].id}
+            elif isinstance(n, ast.Assign):
+                v = n.value
+                element = isinstance(v, ast.Subscript) and isinstance(v.value, ast.Name) and v.value.id == batch and not isinstance(v.slice, ast.Slice)
+                if (isinstance(v, ast.Name) and v.id in sampled) or element:
+                    new = {t.id for t in n.targets if isinstance(t, ast.Name)}
+            if new - sampled:
+                sampled |= new
+                changed = True
+    mutated = {n.func.value.id for n in walk_body(ctt) if isinstance(n, ast.Call) and isinstance(n.func, ast.Attribute) and isinstance(n.func.value, ast.Name)
+               and n.func.attr in ("append", "extend", "insert", "add", "update", "pop", "remove", "clear", "sort", "setdefault")}
+    mutated |= {n.value.id for n in walk_body(ctt) if isinstance(n, ast.Subscript) and isinstance(n.ctx, (ast.Store, ast.Del)) and isinstance(n.value, ast.Name)}
+    keep = {stats_var, cvar, svar, batch} | sampled | mutated  # a local that is mutated after its definition is not the value it was defined with
+
+    def res(e):
+        return H.resolve(e, ctt, keep)
+
+    def is_field(e, var, field):
+        return isinstance(e, ast.Attribute) and e.attr == field and isinstance(e.value, ast.Name) and e.value.id == var
+
+    # ---- emit sites -----------------------------------------------------------------------------------------------------------------------------------
+    emits = _emits(H, ctt, keep)
+    if len(emits) < 2:
+        raise AnchorMissing(f"the two throughput emit sites (5-tuples: bucket completion and final-sample rule) in {ctt.name}")
+    memits = _emits(H, mtt)
+    if not memits:
+        raise AnchorMissing(f"the emit site (5-tuple) of {mtt.name}")
+
+    # ---- roles of the state's methods and attributes ---------------------------------------------------------------------------------------------------
+    def role_calls(field):
+        """calls of a state method in the loop that receive <sample>.<field> (or the sample itself, the method reading that field)."""
+        out = []
+        for c in stat_calls:
+            if not in_loop(c):
+                continue
+            fn = sm[c.func.attr]
+            b = source.bind_args(c, fn)
+            for p, a_ in b.items():
+                r = res(a_)
+                if is_field(r, svar, field) or (isinstance(r, ast.Name) and r.id == svar and any(isinstance(x, ast.Attribute) and x.attr == field and isinstance(x.value, ast.Name) and x.value.id == p for x in ast.walk(fn))):
+                    out.append((c, p))
+        return out
+
+    ui_calls, mu_calls = role_calls(_ABS), role_calls(_STYPE)
+    if len({c.func.attr for c, _ in ui_calls}) != 1:
+        raise AnchorMissing("the state method that advances the elapsed interval (called per sample with the sample's absolute_time)")
+    if len({c.func.attr for c, _ in mu_calls}) != 1:
+        raise AnchorMissing("the state method that updates the per-task sample type (called per sample with the sample's sample_type)")
+    ui, mu = sm[ui_calls[0][0].func.attr], sm[mu_calls[0][0].func.attr]
+
+    def uniq(cands, what, prefer=()):
+        c = sorted(set(cands))
+        if len(c) > 1 and prefer:
+            c = [x for x in c if x in prefer] or c
+        if len(c) != 1:
+            raise AnchorMissing(f"{what} (candidates: {c})")
+        return c[0]
+
+    readers = set()
+    for nm_, f_ in sm.items():
+        if len(params_of(f_)) == 1 and nm_ not in ("__init__", "__post_init__", "__repr__", "__str__"):
+            readers |= _self_reads(f_)
+    I = uniq(_attrs_from_params(ui), "the interval attribute of the per-task state (assigned from the sample time)", readers)
+    T_ = uniq(_attrs_from_params(mu), "the sample-type attribute of the per-task state (assigned from the sample's type)", readers | {x.attr for e in emits for x in ast.walk(e.elts[2]) if isinstance(x, ast.Attribute)})
+    cnt_inits = [n for n in walk_body(ctt) if isinstance(n, ast.Assign) and any(isinstance(t, ast.Name) and t.id == cvar for t in n.targets)]
+    tot_c = [n.value.attr for n in cnt_inits if isinstance(n.value, ast.Attribute) and isinstance(n.value.value, ast.Name) and n.value.value.id == stats_var]
+    tot_c = tot_c or [a_ for a_, p in _attrs_from_params(fb).items()]
+    tot = uniq(tot_c, "the carried-total attribute of the per-task state (the running count starts from it / the finishing routine stores its argument in it)", readers)
+    flags = [t.attr for f_ in sm.values() if f_.name not in ("__init__", "__post_init__") for n in walk_body(f_) if isinstance(n, ast.Assign) and isinstance(n.value, ast.Constant) and isinstance(n.value.value, bool)
+             for t in n.targets if is_self_attr(t)]
+    F = uniq(flags, "the has-a-value-for-this-type flag of the per-task state (set / cleared with boolean constants by its methods)", readers)
+    # pending-samples attribute: where the loop keeps the current sample
+    keep_sites = []
+    for n in walk_body(ctt):
+        if isinstance(n, ast.Call) and isinstance(n.func, ast.Attribute) and n.func.attr == "append" and isinstance(n.func.value, ast.Attribute) and isinstance(n.func.value.value, ast.Name) \
+                and n.func.value.value.id == stats_var and len(n.args) == 1:
+            keep_sites.append((n, n.func.value.attr, n.args[0]))
+        elif isinstance(n, ast.AugAssign) and isinstance(n.op, ast.Add) and isinstance(n.target, ast.Attribute) and isinstance(n.target.value, ast.Name) and n.target.value.id == stats_var \
+                and isinstance(n.value, (ast.List, ast.Tuple)) and len(n.value.elts) == 1:
+            keep_sites.append((n, n.target.attr, n.value.elts[0]))
+        elif on_stats(n) and len(n.args) == 1 and sm[n.func.attr] not in (fb, ui, mu):
+            fn = sm[n.func.attr]
+            inner = [x for x in walk_body(fn) if isinstance(x, ast.Call) and isinstance(x.func, ast.Attribute) and x.func.attr == "append" and is_self_attr(x.func.value) and len(x.args) == 1
+                     and isinstance(x.args[0], ast.Name) and x.args[0].id in params_of(fn)[1:]]
+            if len(inner) == 1:
+                keep_sites.append((n, inner[0].func.value.attr, n.args[0]))
+    u_cands = [a_ for _, a_, _ in keep_sites]
+    if not u_cands:
+        # no keep site in the routine (it may have been lost): the pending list is still known as the list the finishing routine empties
+        u_cands = [t.attr for n in walk_body(fb) if isinstance(n, ast.Assign) and _empty_list(n.value) for t in n.targets if is_self_attr(t)]
+        u_cands += [n.func.value.attr for n in walk_body(fb) if isinstance(n, ast.Call) and isinstance(n.func, ast.Attribute) and n.func.attr == "clear" and is_self_attr(n.func.value)]
+    if not u_cands:
+        raise AnchorMissing(f"the place where {ctt.name} keeps a sample that completes no bucket (<state>.<pending>.append(<sample>))")
+    U = uniq(u_cands, "the pending-samples attribute of the per-task state")
+
+    # constructor parameters by what flows into them
+    cb = M.bind_ctor(ctor)
+    cdefs_ctor = local_defs(ctor_fn)
+
+    def mentions(e, field):
+        return any(isinstance(x, ast.Attribute) and x.attr == field for x in ast.walk(source.inline_node(e, cdefs_ctor)))
+
+    start_ps = [p for p, a_ in cb.items() if mentions(a_, _ABS)]
+    type_ps = [p for p, a_ in cb.items() if mentions(a_, _STYPE) and p not in start_ps]
+    if len(start_ps) != 1:
+        raise AnchorMissing(f"the constructor argument of {TS.name} that fixes the start time (derived from the first sample's absolute_time)")
+    start_p = start_ps[0]
+    S = M.attr_of_param(start_p)
+    if S is None:
+        raise AnchorMissing(f"the attribute of {TS.name} that stores constructor parameter `{start_p}`")
+    type_p = type_ps[0] if len(type_ps) == 1 else None
+
+    def fresh(**over):
+        vals = {start_p: 10.0}
+        if type_p:
+            vals[type_p] = 0
+        rec = M.new(vals)
+        for k_, v_ in over.items():
+            rec.fields[k_] = v_
+        return rec
+
+    roles_ = {tot, U, I, S, T_, F}
+
+    def variants(**over):
+        """representative states: the fields named in `over` fixed, every other numeric field once as initialised and once 0, the flag (unless fixed) both ways."""
+        out = []
+        for zero in (False, True):
+            for fl in ((False, True) if F not in over else (over[F],)):
+                r = fresh()
+                if zero:
+                    for k_, v_ in list(r.fields.items()):
+                        if isinstance(v_, (int, float)) and not isinstance(v_, bool) and k_ not in over and k_ not in (S, T_):
+                            r.fields[k_] = 0
+                r.fields[F] = fl
+                r.fields.update(over)
+                out.append(r)
+        return out
+
+    def show(r):
+        return "{" + ", ".join(f"{k_}={v_!r}" for k_, v_ in r.fields.items() if k_ in roles_ or (isinstance(v_, (int, float)) and not isinstance(v_, bool))) + "}"
+
+    def pred_name(f_):
+        """name of the state predicate (method without arguments, or property) a condition consists of, else None."""
+        if on_stats(f_) and not f_.args and not f_.keywords:
+            return f_.func.attr
+        if isinstance(f_, ast.Attribute) and isinstance(f_.value, ast.Name) and f_.value.id == stats_var and f_.attr in M.props:
+            return f_.attr
+        return None
+
+    def pred_calls(node):
+        """state predicates among the conditions under which `node` runs."""
+        return [pred_name(f_) for f_ in pat.fact_nodes(node) if pred_name(f_) is not None]
+
+    # =====================================================================================================================================================
     # ---- O6.1 conservation --------------------------------------------------------------------------------------
     chk.rule("O6.1", "running count starts from the carried total; count += sample.total_ops exactly once per iteration, unconditionally; each iteration ends in exactly "
              "one of {finish bucket(count), append sample to unprocessed}; carried total and unprocessed are written only by the finishing routine, together; "
              "unprocessed is merged into the next batch iff the task has state and is cleared once merged", 8,
              "any cut of the sample stream inside a bucket: operations are lost or counted twice, so throughput depends on batching")
-    cnt_inits = [n for n in walk_body(ctt) if isinstance(n, ast.Assign) and isinstance(n.targets[0], ast.Name) and u(n.value) == f"{stats_var}.total_count"]
     if not cnt_inits:
-        raise AnchorMissing("running count initialised from <stats>.total_count")
-    cvar = cnt_inits[0].targets[0].id
-    ok = len(cnt_inits) == 1 and g.dominated_by_nodes(Lh, [g.node_of(cnt_inits[0])]) and not guards(cnt_inits[0])
-    chk.ob("O6.1", "count starts from the carried total", ok, cnt_inits[0], short(cnt_inits[0], 60))
+        raise AnchorMissing("initialisation of the running count")
+    ci = cnt_inits[0]
+    ok = len(cnt_inits) == 1 and isinstance(ci.value, ast.Attribute) and isinstance(ci.value.value, ast.Name) and ci.value.value.id == stats_var and ci.value.attr == tot \
+        and g.dominated_by_nodes(Lh, [g.node_of(ci)]) and not in_loop(ci)
+    chk.ob("O6.1", "count starts from the carried total", ok, ci, short(ci, 60))
     adds = [n for n in walk_body(ctt) if isinstance(n, ast.AugAssign) and isinstance(n.target, ast.Name) and n.target.id == cvar]
-    ok = len(adds) == 1 and isinstance(adds[0].op, ast.Add) and u(adds[0].value) == f"{svar}.total_ops" and source.parent(adds[0]) is L and not guards(adds[0], stop=L)
-    chk.ob("O6.1", "count += sample.total_ops once per iteration, unconditionally", ok, adds[0] if adds else L, f"{len(adds)} update(s) of {cvar}: {[short(a, 50) for a in adds]}")
-    other_cnt = [n for n in walk_body(ctt) if isinstance(n, ast.Assign) and any(isinstance(t, ast.Name) and t.id == cvar for t in n.targets) and n not in cnt_inits]
+    ok = len(adds) == 1 and isinstance(adds[0].op, ast.Add) and is_field(res(adds[0].value), svar, _OPS) and source.enclosing(adds[0], (ast.For, ast.While)) is L \
+        and _every_iteration_passes(g, L, [g.node_of(adds[0])])
+    if adds:
+        chk.ob("O6.1", "count += sample.total_ops once per iteration, unconditionally", ok, adds[0], f"{len(adds)} update(s) of {cvar}: {[short(a, 50) for a in adds]}")
+    else:
+        chk.unknown("O6.1", f"no augmented update of the running count `{cvar}` in {ctt.name}: how the operations of a sample are added was not recognised", L)
+    other_cnt = [n for n in walk_body(ctt) if isinstance(n, ast.Assign) and any(isinstance(t, ast.Name) and t.id == cvar for t in n.targets) and n not in cnt_inits[:1]]
+    other_cnt += [n for n in walk_body(ctt) if isinstance(n, (ast.For, ast.comprehension, ast.NamedExpr)) and any(isinstance(x, ast.Name) and x.id == cvar for x in ast.walk(n.target))]
     chk.ob("O6.1", "no other writer of the running count", not other_cnt, other_cnt[0] if other_cnt else ctt, "")
     # iteration ends in exactly one of finish / keep
-    fin_calls = [n for n in walk_body(ctt) if isinstance(n, ast.Call) and u(n.func) == f"{stats_var}.finish_bucket"]
-    keep_calls = [n for n in walk_body(ctt) if isinstance(n, ast.Call) and u(n.func) == f"{stats_var}.unprocessed.append"]
-    fin_in = [c for c in fin_calls if L in list(source.ancestors(c))]
-    keep_in = [c for c in keep_calls if L in list(source.ancestors(c))]
-    starts = g.edge_targets(Lh, "iter")
-    nodes = [g.node_of(c) for c in fin_in + keep_in]
-    ok = bool(fin_in) and bool(keep_in) and all(Lh.id not in g.reachable([s], avoid=nodes, edge_ok=g.normal_edge) for s in starts)
+    fin_in = [c for c in fin_calls if in_loop(c)]
+    keep_in = [k for k in keep_sites if in_loop(k[0])]
+    nodes = [g.node_of(c) for c in fin_in] + [g.node_of(k[0]) for k in keep_in]
+    ok = bool(fin_in) and bool(keep_in) and _every_iteration_passes(g, L, nodes)
     chk.ob("O6.1", "every iteration finishes a bucket or keeps the sample", ok, L, f"finish sites={len(fin_in)} keep sites={len(keep_in)}" + ("" if ok else "; an iteration can reach the back edge doing neither (sample lost)"))
-    both = any(g.path_exists(g.node_of(a), g.node_of(b), avoid=[Lh]) or g.path_exists(g.node_of(b), g.node_of(a), avoid=[Lh]) for a in fin_in for b in keep_in)
-    chk.ob("O6.1", "never both in one iteration", not both, keep_in[0] if keep_in else L, "finish and keep are on disjoint paths" if not both else "a sample can be counted in the carried total AND kept as unprocessed")
-    for c in keep_in:
-        ok = len(c.args) == 1 and isinstance(c.args[0], ast.Name) and c.args[0].id == svar
-        chk.ob("O6.1", "the kept element is the current sample", ok, c, short(c, 60))
+    both = any(g.path_exists(g.node_of(a), g.node_of(b[0]), avoid=[Lh]) or g.path_exists(g.node_of(b[0]), g.node_of(a), avoid=[Lh]) for a in fin_in for b in keep_in)
+    chk.ob("O6.1", "never both in one iteration", not both, keep_in[0][0] if keep_in else L, "finish and keep are on disjoint paths" if not both else "a sample can be counted in the carried total AND kept as unprocessed")
+    for c, _, arg in keep_in:
+        r = res(arg)
+        chk.ob("O6.1", "the kept element is the current sample", isinstance(r, ast.Name) and r.id == svar, c, short(c, 60))
     for c in fin_calls:
-        ok = len(c.args) == 1 and isinstance(c.args[0], ast.Name) and c.args[0].id == cvar
+        b = source.bind_args(c, fb)
+        ok = len(b) == 1 and len(c.args) + len(c.keywords) == 1 and all(isinstance(a_, ast.Name) and a_.id == cvar for a_ in b.values())
         chk.ob("O6.1", "bucket finished with the running count", ok, c, short(c, 60))
-    # finish_bucket writes carried total := argument and unprocessed := []
-    fb = sm.get("finish_bucket")
-    if fb is None:
-        raise AnchorMissing("TaskStats.finish_bucket")
-    gfb = cfg_of(fb)
-    p = source.params_of(fb)[1]
-    tot = [n for n in walk_body(fb) if isinstance(n, ast.Assign) and any(is_self_attr(t, "total_count") for t in n.targets)]
-    unp = [n for n in walk_body(fb) if isinstance(n, ast.Assign) and any(is_self_attr(t, "unprocessed") for t in n.targets)]
-    ok = len(tot) == 1 and isinstance(tot[0].value, ast.Name) and tot[0].value.id == p and not guards(tot[0])
-    chk.ob("O6.1", "finish: carried total := argument", ok, tot[0] if tot else fb, "")
-    ok = len(unp) == 1 and isinstance(unp[0].value, ast.List) and not unp[0].value.elts and not guards(unp[0])
-    chk.ob("O6.1", "finish: unprocessed := []", ok, unp[0] if unp else fb, "")
-    # who may write total_count / unprocessed / has_samples
-    for attr in ("total_count", "unprocessed"):
+    # finish writes carried total := argument and unprocessed := []  (decided on values)
+    if len(params_of(fb)) != 2:
+        raise AnchorMissing(f"{TS.name}.{fb.name}(self, <new total>)")
+
+    def after_finish(field, expect):
+        """the finishing routine, interpreted on representative states (growing / unchanged / zero total, flag either way, with and without elapsed time, with pending samples)."""
+        def f():
+            for t0, arg in ((7, 42), (7, 7), (0, 0), (0, 5)):
+                for r in variants(**{tot: t0, I: 2.5}) + variants(**{tot: t0, I: 0}):
+                    r.fields[U] = ["s1", "s2"]
+                    before = show(r)
+                    M.call(r, fb.name, arg)
+                    want = arg if expect is _NOTHING else expect
+                    if r.fields.get(field) != want:
+                        return False, f"{fb.name}({arg}) on {before}: {field} is {r.fields.get(field)!r} afterwards, expected {want!r}"
+            return True, f"{field} == {'the argument' if expect is _NOTHING else repr(expect)} after {fb.name}(n) on all representative states"
+        return f
+
+    _decide(chk, "O6.1", "finish: carried total := argument", fb, after_finish(tot, _NOTHING))
+    _decide(chk, "O6.1", "finish: unprocessed := []", fb, after_finish(U, []))
+    # a state method that changes nothing but empties the pending list (decided on values), called before the loop on every path, is the reset-once-merged in another spelling
+    def is_reset(fn):
+        try:
+            r = fresh(**{tot: 7, U: ["s1"], I: 2.5})
+            before = dict(r.fields)
+            M.call(r, fn.name)
+            return r.fields.get(U) == [] and all(r.fields.get(k_) == v_ for k_, v_ in before.items() if k_ != U)
+        except (CannotEval, TypeError, ValueError, KeyError, ZeroDivisionError, RecursionError):
+            return False
+
+    reset_calls = [c for c in stat_calls if not c.args and not c.keywords and sm[c.func.attr] not in (fb, ui, mu) and not in_loop(c) and g.dominated_by_nodes(Lh, [g.node_of(c)]) and is_reset(sm[c.func.attr])]
+    reset_fns = [sm[c.func.attr] for c in reset_calls]
+    # who may write total_count / unprocessed
+    for attr in (tot, U):
         for n in ast.walk(drv.tree):
             if isinstance(n, (ast.Assign, ast.AugAssign)):
                 tg = n.targets if isinstance(n, ast.Assign) else [n.target]
-                for t in tg:
-                    if isinstance(t, ast.Attribute) and t.attr == attr and source.enclosing_class(n) is not None and source.enclosing_class(n).name in ("TaskStats", "ThroughputCalculator"):
+                for t in [x for t_ in tg for x in ast.walk(t_) if isinstance(x, ast.Attribute) and isinstance(x.ctx, ast.Store)]:
+                    if t.attr == attr and source.enclosing_class(n) is not None and source.enclosing_class(n) in (TS, TC):
                         fn = source.enclosing_func(n)
-                        if fn is not None and fn.name in ("__init__",) and source.enclosing_class(n) is TS:
+                        if fn is not None and fn.name in ("__init__", "__post_init__") and source.enclosing_class(n) is TS:
                             continue
                         if fn is fb:
                             continue
-                        if attr == "unprocessed" and fn is ctt and isinstance(n, ast.Assign) and isinstance(n.value, ast.List) and not n.value.elts and not guards(n) \
-                                and g.dominated_by_nodes(Lh, [g.node_of(n)]):
+                        if attr == U and any(fn is x for x in reset_fns):
+                            chk.ob("O6.1", "unprocessed cleared once merged (before the loop)", True, reset_calls[0], short(reset_calls[0], 60))
+                            continue
+                        if attr == U and fn is ctt and isinstance(n, ast.Assign) and _empty_list(n.value) and not in_loop(n) and g.dominated_by_nodes(Lh, [g.node_of(n)]):
                             chk.ob("O6.1", "unprocessed cleared once merged (before the loop)", True, n, short(n, 60))
                             continue
                         chk.ob("O6.1", f"{attr} written outside the bucket-finishing routine", False, n,
                                f"{short(n, 60)} — carried total and unprocessed must change together (conservation)")
-    # merged into next batch: calculate() chains unprocessed when the task has state
-    merges = [n for n in walk_body(calc) if isinstance(n, ast.Call) and last_attr(n.func) == "chain" and any("unprocessed" in u(a) for a in n.args)]
-    ok = False
-    detail = "no chain(new samples, <stats>.unprocessed)"
-    if merges:
-        m = merges[0]
-        gs = guards(m)
-        ok = len(m.args) == 2 and any(pol and isinstance(t, ast.Compare) and isinstance(t.ops[0], ast.In) and is_self_attr(t.comparators[0], "task_stats") for t, pol in gs)
-        detail = f"{short(m, 70)} under {[(u(t), p) for t, p in gs]}"
-    chk.ob("O6.1", "unprocessed merged into the next batch when the task has state", ok, merges[0] if merges else calc, detail)
+    # merged into next batch: calculate() combines the new samples with <state>.<pending> whenever the task has state
+    per_task = source.enclosing(direct[ctt.name][0], (ast.For, ast.While))
+    if per_task is not None and source.enclosing_func(per_task) is not calc:
+        per_task = None
+    cdefs = local_defs(calc)
+
+    def state_base(e, scope):
+        """key expression if e denotes the task's state object in `scope`: self.A[k] / self.A.get(k) or a local / walrus bound to it."""
+        k = _state_expr(e, A)
+        if k is None and isinstance(e, ast.Name):
+            walrus = [n.value for n in ast.walk(scope) if isinstance(n, ast.NamedExpr) and isinstance(n.target, ast.Name) and n.target.id == e.id]
+            for v in walrus + [n.value for n in walk_body(scope) if isinstance(n, ast.Assign) and any(isinstance(t, ast.Name) and t.id == e.id for t in n.targets)]:
+                k = k or _state_expr(v, A)
+        return k[1] if k else None
+
+    # the merge may have been extracted into a helper that calculate() calls: look there too
+    mscope, pend = calc, []
+    for sc in [calc] + [fn_ for c in walk_body(calc) if isinstance(c, ast.Call) for fn_ in [H.callee(c)] if fn_ is not None and fn_ not in (ctt, mtt, calc)]:
+        pend = [n for n in walk_body(sc) if isinstance(n, ast.Attribute) and n.attr == U and isinstance(n.ctx, ast.Load) and state_base(n.value, sc) is not None]
+        if pend:
+            mscope = sc
+            break
+    mdefs = local_defs(mscope)
+
+    def combo_of(x):
+        return next((a_ for a_ in source.ancestors(x) if (isinstance(a_, ast.Call) and last_attr(a_.func) == "chain") or (isinstance(a_, ast.BinOp) and isinstance(a_.op, ast.Add))
+                     or (isinstance(a_, (ast.List, ast.Tuple)) and any(isinstance(y, ast.Starred) for y in a_.elts))), None)
+
+    if pend:
+        m = pend[0]
+        combo, use = combo_of(m), m
+        st_ = source.enclosing_stmt(m)
+        if combo is None and isinstance(st_, ast.Assign) and st_.value is m and len(st_.targets) == 1 and isinstance(st_.targets[0], ast.Name):
+            # the pending list is bound to a local first: follow the local
+            for x in walk_body(mscope):
+                if isinstance(x, ast.Name) and x.id == st_.targets[0].id and isinstance(x.ctx, ast.Load) and combo_of(x) is not None:
+                    combo, use = combo_of(x), x
+                    break
+        n_src = 0 if combo is None else (len(combo.args) if isinstance(combo, ast.Call) else (2 if isinstance(combo, ast.BinOp) else len(combo.elts)))
+        key_name = source.inline_node(state_base(m.value, mscope), mdefs)
+        facts = pat.fact_nodes(use, stop=per_task if mscope is calc else None)
+
+        def merged_when_state():
+            if not isinstance(key_name, ast.Name):
+                raise CannotEval(f"task key `{u(key_name)}`")
+            if combo is None:
+                raise CannotEval(f"how `{short(source.enclosing_stmt(m), 60)}` combines the pending samples with the new ones")
+            pending = [_sample(absolute_time=3.0)]
+            env = {"self": Record(**{A: {"t": Record(**{U: pending})}}), key_name.id: "t"}
+            for nm_, v_ in mdefs.items():
+                if isinstance(v_, ast.Name) and u(source.inline_node(v_, mdefs)) == key_name.id:
+                    env[nm_] = "t"
+            operands = combo.args if isinstance(combo, ast.Call) else ([combo.left, combo.right] if isinstance(combo, ast.BinOp) else [getattr(x, "value", x) for x in combo.elts])
+            for o_ in operands:
+                if isinstance(o_, ast.Name) and o_ is not use and o_.id not in env:
+                    env[o_.id] = [_sample(absolute_time=5.0)]  # the new samples of the task: a batch always brings at least one
+            vals = [(u(f_), bool(minieval.ev(source.inline_node(f_, {k_: v_ for k_, v_ in mdefs.items() if not isinstance(v_, ast.Name)}, no_calls=True), env))) for f_ in facts]
+            return n_src >= 2 and all(v for _, v in vals), f"{short(combo, 70)} under {vals} (task with state)"
+
+        _decide(chk, "O6.1", "unprocessed merged into the next batch when the task has state", combo if combo is not None else m, merged_when_state)
+    else:
+        opaque = [c for c in walk_body(calc) if isinstance(c, ast.Call) and H.callee(c) is not None and H.callee(c) not in (ctt, mtt)]
+        if opaque:
+            chk.unknown("O6.1", f"no read of <state>.{U} in calculate(); `{short(opaque[0], 50)}` may merge the carried-over samples", opaque[0])
+        else:
+            chk.ob("O6.1", "unprocessed merged into the next batch when the task has state", False, calc, f"calculate() never reads <state>.{U}: no chain(new samples, <stats>.{U})")
     # cleared once merged: either the merge site or the per-task routine resets unprocessed before appending again
-    cleared = [n for n in walk_body(ctt) if isinstance(n, ast.Assign) and any(u(t) == f"{stats_var}.unprocessed" for t in n.targets) and isinstance(n.value, ast.List) and not n.value.elts
-               and not guards(n) and g.dominated_by_nodes(Lh, [g.node_of(n)])]
-    cleared += [n for n in walk_body(calc) if isinstance(n, ast.Assign) and any("unprocessed" in u(t) for t in n.targets) and isinstance(n.value, ast.List) and not n.value.elts]
+    cleared = [n for n in walk_body(ctt) if isinstance(n, ast.Assign) and any(u(t) == f"{stats_var}.{U}" for t in n.targets) and _empty_list(n.value)
+               and not in_loop(n) and g.dominated_by_nodes(Lh, [g.node_of(n)])]
+    cleared += [n for n in walk_body(ctt) if isinstance(n, ast.Call) and isinstance(n.func, ast.Attribute) and n.func.attr == "clear" and u(n.func.value) == f"{stats_var}.{U}"
+                and not in_loop(n) and g.dominated_by_nodes(Lh, [g.node_of(n)])]
+    cleared += [n for n in walk_body(ctt) if ((isinstance(n, ast.Delete) and any(isinstance(t, ast.Subscript) and isinstance(t.slice, ast.Slice) and u(t.value) == f"{stats_var}.{U}" for t in n.targets)) or
+                                              (isinstance(n, ast.Assign) and _empty_list(n.value) and any(isinstance(t, ast.Subscript) and isinstance(t.slice, ast.Slice) and u(t.value) == f"{stats_var}.{U}" for t in n.targets)))
+                and not in_loop(n) and g.dominated_by_nodes(Lh, [g.node_of(n)])]
+    cleared += reset_calls
+    cleared += [n for n in walk_body(calc) if isinstance(n, ast.Assign) and any(isinstance(t, ast.Attribute) and t.attr == U for t in n.targets) and _empty_list(n.value)]
+    pend_alias = {t.id for n in walk_body(calc) if isinstance(n, ast.Assign) and any(n.value is x for x in pend) for t in n.targets if isinstance(t, ast.Name)}
+    cleared += [n for n in walk_body(calc) if isinstance(n, ast.Call) and isinstance(n.func, ast.Attribute) and n.func.attr == "clear" and
+                (any(n.func.value is x for x in pend) or (isinstance(n.func.value, ast.Name) and n.func.value.id in pend_alias))]
     chk.ob("O6.1", "carried-over samples are not kept a second time (list cleared once merged)", bool(cleared), cleared[0] if cleared else ctt,
            "reset before the loop re-appends" if cleared else "a batch that completes no bucket re-appends carried-over samples to the list that still holds them: they are counted twice by the next batch",
            key=f"{_D}:ThroughputCalculator.calculate_task_throughput:unprocessed-cleared-once-merged")
     # the batch is sorted by time before processing; the per-task routine receives that list
-    srt = [n for n in walk_body(calc) if isinstance(n, ast.Call) and dotted(n.func) == "sorted"]
-    ok = bool(srt) and any(k.arg == "key" and "absolute_time" in u(k.value) for k in srt[0].keywords)
-    chk.ob("O6.1", "batch sorted by absolute time", ok, srt[0] if srt else calc, "")
+    c0 = direct[ctt.name][0]
+    batch_arg = source.bind_args(c0, ctt).get(batch)
+    if batch_arg is None:
+        raise AnchorMissing(f"the batch argument of the call of {ctt.name} in calculate()")
+    bexpr = source.inline_node(batch_arg, cdefs)
+    bvals = [bexpr]
+    if isinstance(bexpr, ast.Name):
+        # bound on several paths (e.g. one sort per arm): every binding counts
+        bvals = [source.inline_node(n.value, cdefs) for n in walk_body(calc) if isinstance(n, ast.Assign) and any(isinstance(t, ast.Name) and t.id == bexpr.id for t in n.targets)]
+    in_place = next((n for n in walk_body(calc) if isinstance(bexpr, ast.Name) and isinstance(n, ast.Call) and isinstance(n.func, ast.Attribute) and n.func.attr == "sort" and isinstance(n.func.value, ast.Name)
+                     and n.func.value.id == bexpr.id), None)
+    sorts = [in_place] * len(bvals) if in_place is not None else [v if isinstance(v, ast.Call) and dotted(v.func) == "sorted" else None for v in bvals]
+    if not bvals or any(sc is None and any(isinstance(x, ast.Call) and dotted(x.func) not in ("list", "tuple", "itertools.chain", "chain") for x in ast.walk(v)) for sc, v in zip(sorts, bvals)):
+        chk.unknown("O6.1", f"the batch handed to {ctt.name} is `{short(bexpr, 60)}`: cannot tell whether it is sorted by time", c0)
+    else:
+        def sorted_by_time():
+            for srt, v in zip(sorts, bvals):
+                if srt is None:
+                    return False, f"`{short(v, 60)}` is handed over unsorted"
+                kf = source.arg_of(srt, None, "key")
+                rev = source.arg_of(srt, None, "reverse")
+                if rev is not None and not (source.is_const(rev) and not rev.value):
+                    return False, f"reverse={u(rev)}"
+                if kf is None:
+                    return False, "no sort key"
+                if isinstance(kf, ast.Name) and kf.id in cdefs:
+                    kf = cdefs[kf.id]
+                named = H.funcs.get(kf.id) if isinstance(kf, ast.Name) else (H.methods.get(kf.attr) if isinstance(kf, ast.Attribute) and dotted(kf.value) in ("self", "cls", TC.name) else None)
+                if named is not None and _returned_expr(named) is not None and len([p_ for p_ in params_of(named) if p_ not in ("self", "cls")]) == 1:
+                    kf = ast.Lambda(args=ast.arguments(posonlyargs=[], args=[ast.arg(arg=[p_ for p_ in params_of(named) if p_ not in ("self", "cls")][0])], kwonlyargs=[], kw_defaults=[], defaults=[]),
+                                    body=_returned_expr(named))
+                if isinstance(kf, ast.Lambda) and len(kf.args.args) == 1:
+                    a_, b_ = _sample(absolute_time=3.0, relative_time=9.0, time_period=1.0), _sample(absolute_time=8.0, relative_time=1.0, time_period=7.0)
+                    va, vb = minieval.ev(kf.body, {kf.args.args[0].arg: a_}), minieval.ev(kf.body, {kf.args.args[0].arg: b_})
+                    if (va, vb) != (3.0, 8.0):
+                        return False, f"key maps samples at t=3 / t=8 to {va!r} / {vb!r}"
+                elif isinstance(kf, ast.Call) and (dotted(kf.func) or "").split(".")[-1] == "attrgetter" and len(kf.args) == 1 and isinstance(kf.args[0], ast.Constant):
+                    if kf.args[0].value != _ABS:
+                        return False, f"key {u(kf)}"
+                else:
+                    raise CannotEval(f"sort key {u(kf)}")
+            return True, f"{len(sorts)} sort(s) by {_ABS}"
+
+        # report at the statement of the analysed tree (the resolved copies carry no position)
+        b_site = in_place if in_place is not None else (cdefs[batch_arg.id] if isinstance(batch_arg, ast.Name) and batch_arg.id in cdefs else
+                                                        next((n.value for n in walk_body(calc) if isinstance(bexpr, ast.Name) and isinstance(n, ast.Assign) and any(isinstance(t, ast.Name) and t.id == bexpr.id for t in n.targets)), batch_arg))
+        _decide(chk, "O6.1", "batch sorted by absolute time", b_site, sorted_by_time)
     lazy_batch_rule(chk, "O6.1", drv)
     # every sample of the batch lands in its task's group, wherever it stands in the batch (samples of several tasks / workers are interleaved): the grouping loop appends each
     # sample unconditionally; itertools.groupby only groups CONSECUTIVE elements and is accepted only over input sorted by the same key
-    sp = source.params_of(calc)[1]
-    gl = [n for n in walk_body(calc) if isinstance(n, ast.For) and u(n.iter) == sp and isinstance(n.target, ast.Name)]
-    ok = False
-    detail = "no loop over the batch that appends each sample to its task's group"
-    if gl:
-        sv_ = gl[0].target.id
-        gdefs = {n.targets[0].id: n.value for n in ast.walk(gl[0]) if isinstance(n, ast.Assign) and len(n.targets) == 1 and isinstance(n.targets[0], ast.Name)}
-        apps_ = [c for c in ast.walk(gl[0]) if isinstance(c, ast.Call) and last_attr(c.func) == "append" and c.args and u(c.args[0]) == sv_ and isinstance(c.func.value, ast.Subscript)]
-        ok = len(apps_) == 1 and not guards(apps_[0], stop=gl[0]) and source.inline(apps_[0].func.value.slice, gdefs) == f"{sv_}.task" \
-            and not any(isinstance(x, (ast.Break, ast.Continue, ast.Return)) for x in ast.walk(gl[0]))
-        detail = f"{short(apps_[0], 60)}" if apps_ else detail
-    gb = [c for c in walk_body(calc) if isinstance(c, ast.Call) and dotted(c.func) in ("itertools.groupby", "groupby")]
+    sp = params_of(calc)[1]
+    scopes = [(calc, sp)]
+    for c in walk_body(calc):
+        fn = H.callee(c) if isinstance(c, ast.Call) else None
+        if fn is not None and fn not in (ctt, mtt, calc):
+            for p, a_ in source.bind_args(c, fn).items():
+                if isinstance(a_, ast.Name) and a_.id == sp:
+                    scopes.append((fn, p))
+    ok, site, detail, located = False, calc, "no loop over the batch that appends each sample to its task's group", False
+    for fn, p in scopes:
+        gg = cfg_of(fn)
+        for lp in [n for n in walk_body(fn) if isinstance(n, ast.For) and isinstance(n.iter, ast.Name) and n.iter.id == p and isinstance(n.target, ast.Name)]:
+            sv_ = lp.target.id
+            gdefs = {n.targets[0].id: n.value for n in ast.walk(lp) if isinstance(n, ast.Assign) and len(n.targets) == 1 and isinstance(n.targets[0], ast.Name)}
+            apps_ = [c for c in ast.walk(lp) if isinstance(c, ast.Call) and last_attr(c.func) == "append" and len(c.args) == 1 and u(source.inline_node(c.args[0], gdefs)) == sv_]
+
+            def group_key(recv):
+                if isinstance(recv, ast.Subscript):
+                    return recv.slice
+                if isinstance(recv, ast.Call) and isinstance(recv.func, ast.Attribute) and recv.func.attr == "setdefault" and len(recv.args) == 2 and _empty_list(recv.args[1]):
+                    return recv.args[0]
+                return None
+
+            apps_ = [c for c in apps_ if group_key(c.func.value) is not None]
+            if not apps_:
+                continue
+            located = True
+            ok = len(apps_) == 1 and _every_iteration_passes(gg, lp, [gg.node_of(apps_[0])]) and source.inline(group_key(apps_[0].func.value), gdefs) == f"{sv_}.task" \
+                and not any(isinstance(x, (ast.Break, ast.Return)) for x in ast.walk(lp))
+            site, detail = lp, short(apps_[0], 60)
+    gb = [c for c in ast.walk(calc) if isinstance(c, ast.Call) and dotted(c.func) in ("itertools.groupby", "groupby")]
     if gb and not ok:
         srt_in = gb[0].args and isinstance(gb[0].args[0], ast.Call) and dotted(gb[0].args[0].func) == "sorted" and u(source.arg_of(gb[0].args[0], None, "key")) == u(source.arg_of(gb[0], 1, "key"))
-        ok = bool(srt_in)
+        ok, located, site = bool(srt_in), True, gb[0]
         detail = short(gb[0], 70) + ("" if ok else " — groupby over the batch in arrival order: a later run of the same task overwrites the earlier one, those samples are never counted")
-    chk.ob("O6.1", "grouping by task keeps every sample of the batch (interleaved tasks included)", ok, gl[0] if gl else (gb[0] if gb else calc), detail,
-           key=f"{_D}:ThroughputCalculator.calculate:grouping-keeps-every-sample")
+    if located:
+        chk.ob("O6.1", "grouping by task keeps every sample of the batch (interleaved tasks included)", ok, site, detail, key=f"{_D}:ThroughputCalculator.calculate:grouping-keeps-every-sample")
+    else:
+        chk.unknown("O6.1", "the place where calculate() groups the samples of the batch by task was not recognised (loop that appends each sample to the group of <sample>.task, or groupby)", calc)
     # the per-task state (carried total, start time, sticky sample type) lives as long as the calculator: entries are created on first sight and never removed
-    rem = [n for f_ in drv.methods(TC).values() for n in walk_body(f_) if
-           (isinstance(n, ast.Delete) and any(isinstance(t, ast.Subscript) and is_self_attr(t.value, "task_stats") for t in n.targets)) or
-           (isinstance(n, ast.Call) and isinstance(n.func, ast.Attribute) and n.func.attr in ("pop", "popitem", "clear") and is_self_attr(n.func.value, "task_stats")) or
-           (isinstance(n, ast.Assign) and any(is_self_attr(t, "task_stats") for t in n.targets) and source.enclosing_func(n).name != "__init__")]
+    rem = [n for f_ in tm.values() for n in walk_body(f_) if
+           (isinstance(n, ast.Delete) and any(isinstance(t, ast.Subscript) and is_self_attr(t.value, A) for t in n.targets)) or
+           (isinstance(n, ast.Call) and isinstance(n.func, ast.Attribute) and n.func.attr in ("pop", "popitem", "clear") and is_self_attr(n.func.value, A)) or
+           (isinstance(n, ast.Assign) and any(is_self_attr(t, A) for t in n.targets) and source.enclosing_func(n).name != "__init__")]
     chk.ob("O6.1", "per-task state is never dropped while the calculator lives", not rem, rem[0] if rem else calc,
            "" if not rem else f"`{short(rem[0], 60)}`: a task that pauses for one batch restarts from count 0 while its start time is kept: later values are (operations since the eviction) / (time since task start)",
            key=f"{_D}:ThroughputCalculator:task-state-never-dropped")
 
     # ---- O6.2 monotone interval / safe division ------------------------------------------------------------------------------
     chk.rule("O6.2", "interval := max(t - start, interval); throughput is evaluated only under interval > 0", 3, "division by zero / negative or shrinking interval")
-    ui = sm.get("update_interval")
-    if ui is None:
-        raise AnchorMissing("TaskStats.update_interval")
-    asg = [n for n in walk_body(ui) if isinstance(n, ast.Assign) and any(is_self_attr(t, "interval") for t in n.targets)]
-    ok = False
-    if len(asg) == 1 and isinstance(asg[0].value, ast.Call) and dotted(asg[0].value.func) == "max" and len(asg[0].value.args) == 2:
-        a = [u(x) for x in asg[0].value.args]
-        par = source.params_of(ui)[1]
-        ok = "self.interval" in a and any(rat_equal(x, parse_expr(f"{par} - self.start_time")) for x in asg[0].value.args)
-    chk.ob("O6.2", "interval = max(t - start_time, interval)", ok, asg[0] if asg else ui, short(asg[0], 70) if asg else "")
-    others = [n for n in ast.walk(TS) if isinstance(n, (ast.Assign, ast.AugAssign)) and any(is_self_attr(t, "interval") for t in (n.targets if isinstance(n, ast.Assign) else [n.target]))
-              and source.enclosing_func(n).name not in ("__init__", "update_interval")]
+
+    def call_as_at(c, p_sample, rec, **sample_fields):
+        """interpret the state method called at site c on `rec`, the argument that carries the sample (field) taking the given value."""
+        fn = sm[c.func.attr]
+        s = _sample(**sample_fields)
+        args = {}
+        for p, a_ in source.bind_args(c, fn).items():
+            args[p] = minieval.ev(res(a_), {svar: s})
+        return M.call(rec, fn.name, **args)
+
+    def interval_formula():
+        c, p = ui_calls[0]
+        for s0, i0, t in ((10.0, 0, 12.0), (10.0, 5.0, 12.0), (10.0, 5.0, 20.0), (10.0, 3.0, 9.0), (10.0, 0, 10.0)):
+            r = fresh(**{S: s0, I: i0})
+            call_as_at(c, p, r, absolute_time=t)
+            if not _close(r.fields.get(I), max(t - s0, i0)):
+                return False, f"start={s0} interval={i0} sample at t={t}: interval becomes {r.fields.get(I)!r}, max(t - start, interval) is {max(t - s0, i0)!r}"
+        return True, "interval after a sample at t equals max(t - start, interval) on 5 representative states"
+
+    _decide(chk, "O6.2", "interval = max(t - start_time, interval)", ui, interval_formula)
+    others = [n for n in ast.walk(TS) if isinstance(n, (ast.Assign, ast.AugAssign)) and any(is_self_attr(t, I) for t in (n.targets if isinstance(n, ast.Assign) else [n.target]))
+              and source.enclosing_func(n) is not None and source.enclosing_func(n) is not ui and source.enclosing_func(n).name not in ("__init__", "__post_init__")]
+    others += [n for f_ in tm.values() for n in walk_body(f_) if isinstance(n, (ast.Assign, ast.AugAssign)) and
+               any(isinstance(t, ast.Attribute) and t.attr == I and isinstance(t.value, ast.Name) and t.value.id == stats_var for t in (n.targets if isinstance(n, ast.Assign) else [n.target]))]
     chk.ob("O6.2", "no other writer of interval", not others, others[0] if others else ui, "")
-    for name in ("can_calculate_throughput", "can_add_final_throughput_sample"):
-        f = sm.get(name)
-        if f is None:
-            raise AnchorMissing(f"TaskStats.{name}")
-        rets = [n for n in walk_body(f) if isinstance(n, ast.Return)]
-        ok = len(rets) == 1 and isinstance(rets[0].value, ast.BoolOp) and isinstance(rets[0].value.op, ast.And) and any(u(v) in ("self.interval > 0", "0 < self.interval") for v in rets[0].value.values)
-        chk.ob("O6.2", f"{name} requires interval > 0", ok, f, short(rets[0], 70) if rets else "")
-    # throughput property read only behind a finish in the same branch
-    for n in walk_body(ctt):
-        if isinstance(n, ast.Attribute) and n.attr == "throughput" and isinstance(n.value, ast.Name) and n.value.id == stats_var:
-            gs = guards(n)
-            ok = any(pol and isinstance(t, ast.Call) and last_attr(t.func) in ("can_calculate_throughput",) for t, pol in gs) or \
-                any(pol and "can_add_final_throughput_sample" in u(t) for t, pol in gs)
-            chk.ob("O6.2", "throughput read only under a can_* guard", ok, n, f"guards {[(u(t), p) for t, p in gs]}")
+    # the conditions under which a value is emitted - inside the loop (bucket complete) and after it (final-sample rule) - are decided on values: the state predicates they call
+    # are interpreted, so it does not matter whether the test is spelled in the predicate, inline, or as a guard clause
+    emit_in = [e for e in emits if in_loop(e.node)]
+    emit_out = [e for e in emits if not in_loop(e.node)]
+    if not emit_in or not emit_out:
+        raise AnchorMissing(f"one emit site inside the sample loop (bucket completion) and one after it (final-sample rule) in {ctt.name}")
+    emit_lists = {e.node.func.value.id for e in emits if isinstance(e.node, ast.Call) and isinstance(e.node.func.value, ast.Name)} | \
+                 {e.node.target.id for e in emits if isinstance(e.node, ast.AugAssign) and isinstance(e.node.target, ast.Name)}
+
+    def cond_at(site, which="all"):
+        """the condition under which `site` runs as a function of (state, operations of a one-sample batch, has this call emitted a value already). which: 'state' = only the
+        conjuncts that consult nothing but the per-task state, 'other' = the remaining ones."""
+        raw = pat.fact_nodes(site)
+
+        def state_only(f_):
+            return {x.id for x in ast.walk(f_) if isinstance(x, ast.Name)} <= {stats_var}
+
+        sel = [f_ for f_ in raw if which == "all" or state_only(res(f_)) == (which == "state")]
+        facts = [res(f_) for f_ in sel]
+
+        def f(r, ops=5, emitted=False):
+            s = _sample(total_ops=ops)
+            env = {stats_var: r, batch: [s], cvar: (r.fields.get(tot) or 0) + ops}
+            env.update({nm_: s for nm_ in sampled})
+            env.update({nm_: ([("value",)] if emitted else []) for nm_ in emit_lists})
+            return all(bool(M.ev(f_, dict(env))) for f_ in facts)
+
+        f.text = " and ".join(u(x) for x in sel) or "<unconditional>"
+        names = {pred_name(x) for x in raw if pred_name(x) is not None}
+        f.node = sm[next(iter(names))] if len(names) == 1 else site
+        return f
+
+    def false_at_interval_zero(c):
+        def f():
+            for r in variants(**{I: 0}):
+                for ops in (0, 5):
+                    if c(r, ops):
+                        return False, f"`{c.text}` holds at interval 0 for {show(r)}: the throughput read behind it divides by zero"
+            return True, f"`{c.text}` is false whenever interval == 0"
+        return f
+
+    fin_out = [c for c in fin_calls if not in_loop(c)]
+    final_site = fin_out[0] if fin_out else emit_out[0].node
+    for what, site in (("can_calculate_throughput", emit_in[0].node), ("can_add_final_throughput_sample", final_site)):
+        c = cond_at(site)
+        _decide(chk, "O6.2", f"{what} requires interval > 0", c.node, false_at_interval_zero(c))
+    # throughput property read only where interval > 0 is known
+    P_names = {e.elts[3].attr for e in emits if isinstance(e.elts[3], ast.Attribute) and isinstance(e.elts[3].value, ast.Name) and e.elts[3].value.id == stats_var and e.elts[3].attr in sm}
+    P_names |= {e.elts[3].func.attr for e in emits if on_stats(e.elts[3]) and not e.elts[3].args}
+    divides = {nm_ for nm_, f_ in sm.items() if any(isinstance(x, ast.BinOp) and isinstance(x.op, (ast.Div, ast.FloorDiv)) for x in ast.walk(f_))}
+    tp_reads = [n for n in walk_body(ctt) if isinstance(n, ast.Attribute) and isinstance(n.ctx, ast.Load) and n.attr in (P_names | divides) and isinstance(n.value, ast.Name) and n.value.id == stats_var]
+    # a read that only happens inside an expression helper of an emit site counts at that site
+    tp_reads += [e.node for e in emits if any(isinstance(x, ast.Attribute) and x.attr in (P_names | divides) and isinstance(x.value, ast.Name) and x.value.id == stats_var for x in ast.walk(e.tup))
+                 and not any(any(n is x for x in ast.walk(e.node)) for n in tp_reads)]
+    for n in tp_reads:
+        _decide(chk, "O6.2", "throughput read only under a can_* guard", n, false_at_interval_zero(cond_at(n)))
+    if not tp_reads:
+        chk.unknown("O6.2", f"no read of the state's throughput in {ctt.name}", ctt)
 
     # ---- O6.3 sample type only rises -------------------------------------------------------------------------------------------
     chk.rule("O6.3", "the per-task sample type only rises (guarded by <); the has-value flag is cleared on a rise and set by finish; the emitted sample type is the "
              "per-task (monotone) type; the final-sample rule runs after the loop", 5,
              "successive throughput values go back to warm-up, or a task with normal samples gets no normal throughput value")
-    mu = sm.get("maybe_update_sample_type")
-    if mu is None:
-        raise AnchorMissing("TaskStats.maybe_update_sample_type")
-    par = source.params_of(mu)[1]
-    st_assigns = [n for n in walk_body(mu) if isinstance(n, ast.Assign) and any(is_self_attr(t, "sample_type") for t in n.targets)]
-    ok = False
-    if len(st_assigns) == 1:
-        gs = guards(st_assigns[0])
-        ok = len(gs) == 1 and gs[0][1] and u(gs[0][0]) in (f"self.sample_type < {par}", f"{par} > self.sample_type") and u(st_assigns[0].value) == par
-    chk.ob("O6.3", "sample type replaced only by a greater one", ok, st_assigns[0] if st_assigns else mu, short(st_assigns[0], 60) if st_assigns else "")
-    flag_clears = [n for n in walk_body(mu) if isinstance(n, ast.Assign) and any(is_self_attr(t, "has_samples_in_sample_type") for t in n.targets) and source.is_const(n.value, False)]
-    ok = bool(flag_clears) and bool(st_assigns) and guards(flag_clears[0]) and guards(flag_clears[0])[0][0] is guards(st_assigns[0])[0][0]
-    chk.ob("O6.3", "has-value flag cleared on a rise", bool(ok), flag_clears[0] if flag_clears else mu, "")
-    flag_sets = [n for n in walk_body(fb) if isinstance(n, ast.Assign) and any(is_self_attr(t, "has_samples_in_sample_type") for t in n.targets) and source.is_const(n.value, True)]
-    chk.ob("O6.3", "has-value flag set by finish", bool(flag_sets) and not guards(flag_sets[0]), flag_sets[0] if flag_sets else fb, "")
-    other_flag = [n for n in ast.walk(drv.tree) if isinstance(n, ast.Assign) and any(isinstance(t, ast.Attribute) and t.attr == "has_samples_in_sample_type" for t in n.targets)
-                  and source.enclosing_func(n) not in (mu, fb) and source.enclosing_func(n).name != "__init__"]
+
+    def type_cases():
+        c, p = mu_calls[0]
+        out = []
+        for cur, new, fl in itertools.product((0, 1), (0, 1), (False, True)):
+            r = fresh(**{T_: cur, F: fl})
+            call_as_at(c, p, r, sample_type=new)
+            out.append((cur, new, fl, r.fields.get(T_), r.fields.get(F)))
+        return out
+
+    def type_only_rises():
+        for cur, new, fl, t_after, _ in type_cases():
+            if t_after != max(cur, new):
+                return False, f"task type {cur}, sample of type {new}: the task type becomes {t_after!r} (0 = warm-up, 1 = normal), expected {max(cur, new)}"
+        return True, "task type after a sample == max(task type, sample type) for all four combinations"
+
+    def flag_cleared_on_rise():
+        for cur, new, fl, _, f_after in type_cases():
+            if new > cur and f_after is not False:
+                return False, f"type rises {cur} -> {new} with flag {fl}: flag is {f_after!r} afterwards, so the new type may never get a value"
+        return True, "flag is False after every rise"
+
+    _decide(chk, "O6.3", "sample type replaced only by a greater one", mu, type_only_rises)
+    _decide(chk, "O6.3", "has-value flag cleared on a rise", mu, flag_cleared_on_rise)
+    _decide(chk, "O6.3", "has-value flag set by finish", fb, after_finish(F, True))
+
+    def writes(attr, bases):
+        return [n for n in ast.walk(drv.tree) if isinstance(n, (ast.Assign, ast.AugAssign)) and source.enclosing_class(n) in (TS, TC)
+                and any(isinstance(t, ast.Attribute) and t.attr == attr and isinstance(t.value, ast.Name) and t.value.id in bases for t in (n.targets if isinstance(n, ast.Assign) else [n.target]))]
+
+    other_flag = [n for n in writes(F, ("self", stats_var)) if source.enclosing_func(n) not in (mu, fb) and source.enclosing_func(n) is not None and source.enclosing_func(n).name not in ("__init__", "__post_init__")]
     chk.ob("O6.3", "no other writer of the has-value flag", not other_flag, other_flag[0] if other_flag else TS, "")
-    other_st = [n for n in ast.walk(drv.tree) if isinstance(n, ast.Assign) and any(isinstance(t, ast.Attribute) and t.attr == "sample_type" and isinstance(t.value, ast.Name) and t.value.id in (stats_var, "self") for t in n.targets)
-                and source.enclosing_class(n) in (TS, TC) and source.enclosing_func(n) is not mu and source.enclosing_func(n).name != "__init__"]
+    other_st = [n for n in writes(T_, ("self", stats_var)) if source.enclosing_func(n) is not mu and source.enclosing_func(n) is not None and source.enclosing_func(n).name not in ("__init__", "__post_init__")]
     chk.ob("O6.3", "no other writer of the per-task sample type", not other_st, other_st[0] if other_st else TS, "")
-    mcalls = [n for n in walk_body(ctt) if isinstance(n, ast.Call) and u(n.func) == f"{stats_var}.maybe_update_sample_type"]
-    ok = len(mcalls) == 1 and source.parent(source.parent(mcalls[0])) is L and not guards(mcalls[0], stop=L) and u(mcalls[0].args[0]) == f"{svar}.sample_type"
+    mcalls = [c for c in stat_calls if sm[c.func.attr] is mu]
+    ok = len(mcalls) == 1 and len(mu_calls) == 1 and mu_calls[0][0] is mcalls[0] and source.enclosing(mcalls[0], (ast.For, ast.While)) is L and _every_iteration_passes(g, L, [g.node_of(mcalls[0])])
     chk.ob("O6.3", "type updated from every sample", ok, mcalls[0] if mcalls else L, "")
-    # emitted tuples
-    emits = [n for n in walk_body(ctt) if isinstance(n, ast.Call) and last_attr(n.func) == "append" and n.args and isinstance(n.args[0], ast.Tuple) and len(n.args[0].elts) == 5]
-    if len(emits) < 2:
-        raise AnchorMissing("the two throughput emit sites (5-tuples) in calculate_task_throughput")
     for e in emits:
-        t = e.args[0].elts
-        chk.ob("O6.3", "emitted sample type is the per-task type", u(t[2]) == f"{stats_var}.sample_type", e, f"3rd element: {u(t[2])}")
+        chk.ob("O6.3", "emitted sample type is the per-task type", is_field(e.elts[2], stats_var, T_), e.node, f"3rd element: {u(e.elts[2])}")
     # final-sample rule after the loop
-    fin_out = [c for c in fin_calls if L not in list(source.ancestors(c))]
     ok = False
     if fin_out:
-        gs = guards(fin_out[0])
-        ok = any(pol and "can_add_final_throughput_sample" in u(t) for t, pol in gs) and g.dominated_by_nodes(g.node_of(fin_out[0]), [Lh]) and \
-            not g.path_exists(g.node_of(fin_out[0]), Lh)
-    chk.ob("O6.3", "final-sample rule after the loop", ok, fin_out[0] if fin_out else ctt, "")
-    if fin_out:
-        from sa import pat
-        extra = [u(f_) for f_ in pat.fact_nodes(fin_out[0]) if not ("can_add_final_throughput_sample" in u(f_) and isinstance(f_, ast.Call)) and not pat.is_(f_, "V_x is not None")]
-        chk.ob("O6.3", "the final-sample rule depends on nothing but the per-task predicate (and a sample having been seen)", not extra, fin_out[0],
-               "" if not extra else f"additional condition(s) {extra}: a task whose pending samples carry 0 ops, or whose count did not grow, gets no value of its sample type",
-               key=f"{_D}:calculate_task_throughput:final-rule-guards")
-    fa_ = sm.get("can_add_final_throughput_sample")
-    r_ = [n for n in walk_body(fa_) if isinstance(n, ast.Return)] if fa_ is not None else []
-    if len(r_) == 1:
-        from sa.cfg import conjuncts
-        from sa import pat
-        cj = conjuncts(r_[0].value)
-        ok = len(cj) == 2 and any(pat.is_(c, "self.interval > 0") for c in cj) and any(pat.is_(c, "not self.has_samples_in_sample_type") for c in cj)
-        chk.ob("O6.3", "predicate == positive elapsed time and no value of the current sample type yet", ok, fa_, u(r_[0].value), key=f"{_D}:TaskStats.can_add_final_throughput_sample:exact")
-    fa = sm.get("can_add_final_throughput_sample")
-    rets = [n for n in walk_body(fa) if isinstance(n, ast.Return)]
-    ok = len(rets) == 1 and any(u(v) == "not self.has_samples_in_sample_type" for v in getattr(rets[0].value, "values", []))
-    chk.ob("O6.3", "final sample only when the current type has no value yet", ok, fa, short(rets[0], 70) if rets else "")
+        fo = g.node_of(fin_out[0])
+        ok = g.dominated_by_nodes(fo, [Lh]) and not g.path_exists(fo, Lh)
+    chk.ob("O6.3", "final-sample rule after the loop", ok, final_site,
+           "" if ok else ("the value emitted after the loop is not preceded by a call of the bucket-finishing routine" if not fin_out else "the bucket-finishing call of the final-sample rule can run before / inside the loop"))
+    c_state, c_other = cond_at(final_site, "state"), cond_at(final_site, "other")
+
+    def final_rule_guards():
+        for ops, emitted in itertools.product((0, 5), (False, True)):
+            for r in variants(**{I: 2.5, F: False}):
+                if not c_other(r, ops, emitted):
+                    return False, f"additional condition(s) `{c_other.text}`: false for a batch of one sample with {ops} operations" + (" after a bucket was closed in the same call" if emitted else "") + \
+                        f", state {show(r)}: a task whose pending samples carry 0 ops, or whose count did not grow, gets no value of its sample type"
+        return True, f"besides the state predicate: `{c_other.text}` (true for every non-empty batch)"
+
+    _decide(chk, "O6.3", "the final-sample rule depends on nothing but the per-task predicate (and a sample having been seen)", final_site, final_rule_guards,
+            key=f"{_D}:calculate_task_throughput:final-rule-guards")
+
+    def final_table(exact):
+        def f():
+            for iv, fl in itertools.product((0, 2.5), (False, True)):
+                for r in variants(**{I: iv, F: fl}):
+                    got, exp = c_state(r), (iv > 0 and not fl)
+                    if (got != exp) if exact else (fl and got):
+                        return False, f"`{c_state.text}` is {got} for {show(r)}; positive elapsed time and no value of the current type yet is {exp}"
+            return True, f"`{c_state.text}` == (interval > 0 and not flag) on all representative states" if exact else f"`{c_state.text}` is false whenever the current type already has a value"
+        return f
+
+    _decide(chk, "O6.3", "predicate == positive elapsed time and no value of the current sample type yet", c_state.node, final_table(True), key=f"{_D}:TaskStats.can_add_final_throughput_sample:exact")
+    _decide(chk, "O6.3", "final sample only when the current type has no value yet", c_state.node, final_table(False))
 
     # ---- O6.5 formula identity -------------------------------------------------------------------------------------------------------
     chk.rule("O6.5", "throughput == carried_total / interval; start == first.absolute_time - first.time_period, fixed at first sight of the task; emitted value is <stats>.throughput", 4,
              "any task: the reported number is not ops/elapsed")
-    tp = sm.get("throughput")
-    rets = [n for n in walk_body(tp)] if tp else []
-    rets = [n for n in rets if isinstance(n, ast.Return)]
-    ok = len(rets) == 1 and rat_equal(rets[0].value, parse_expr("self.total_count / self.interval"))
-    chk.ob("O6.5", "throughput = total_count / interval", ok, tp if tp else TS, short(rets[0], 60) if rets else "")
-    ctor = [n for n in walk_body(ctt) if isinstance(n, ast.Call) and last_attr(n.func) == "TaskStats"]
-    ok = False
-    if ctor:
-        c = ctor[0]
-        stv = source.arg_of(c, 2, "start_time")
-        fs = inline(stv, defs) if stv is not None else ""
-        gs = guards(c)
-        first = [k for k, v in defs.items() if isinstance(v, ast.Subscript) and source.is_const(v.slice, 0)]
-        ok = stv is not None and rat_equal(source.inline_node(stv, defs), parse_expr("current_samples[0].absolute_time - current_samples[0].time_period".replace("current_samples", source.params_of(ctt)[2]))) \
-            and any(pol and isinstance(t, ast.Compare) and isinstance(t.ops[0], ast.NotIn) for t, pol in gs)
-        sty = source.arg_of(c, 1, "sample_type")
-    chk.ob("O6.5", "start fixed at first sight: first.absolute_time - first.time_period", ok, ctor[0] if ctor else ctt, short(ctor[0], 100) if ctor else "")
-    st_w = [n for n in ast.walk(drv.tree) if isinstance(n, (ast.Assign, ast.AugAssign)) and any(isinstance(t, ast.Attribute) and t.attr == "start_time" for t in (n.targets if isinstance(n, ast.Assign) else [n.target]))
-            and source.enclosing_class(n) in (TS, TC) and source.enclosing_func(n).name != "__init__"]
+    P = sorted(P_names)[0] if len(P_names) == 1 else (sorted(divides & M.props)[0] if len(divides & M.props) == 1 else None)
+    if P is None:
+        raise AnchorMissing(f"the throughput property of {TS.name} (read by the emit sites)")
+
+    def formula():
+        for t0, i0 in ((10, 4.0), (7, 2.0), (0, 3.0)):
+            for r in variants(**{tot: t0, I: i0}):
+                for k_, v_ in list(r.fields.items()):
+                    if isinstance(v_, (int, float)) and not isinstance(v_, bool) and k_ not in (tot, I):
+                        r.fields[k_] = v_ + 13  # no other field coincides with the interval or the total
+                got = M.call(r, P)
+                if not _close(got, t0 / i0):
+                    return False, f"total={t0} interval={i0}: {P} is {got!r}, total / interval is {t0 / i0!r}"
+        return True, f"{P} == total / interval on representative states"
+
+    _decide(chk, "O6.5", "throughput = total_count / interval", sm[P], formula)
+    # start fixed at first sight
+    cgf = ctor_fn
+    batch_c = batch if cgf is ctt else None
+    key_c = key_param if cgf is ctt else None
+    if cgf is not ctt:
+        for c in walk_body(ctt):
+            if isinstance(c, ast.Call) and H.callee(c) is cgf:
+                for p, a_ in source.bind_args(c, cgf).items():
+                    if isinstance(a_, ast.Name) and a_.id == batch:
+                        batch_c = p
+                    if isinstance(a_, ast.Name) and a_.id == key_param:
+                        key_c = p
+    ctor_stmt = source.enclosing_stmt(ctor)
+
+    def start_value():
+        if batch_c is None:
+            raise CannotEval(f"the batch is not handed to {cgf.name} by name")
+        e = source.inline_node(cb[start_p], {k_: v_ for k_, v_ in cdefs_ctor.items() if k_ != batch_c})
+        for first, second in ((_sample(absolute_time=12.0, time_period=0.5), _sample(absolute_time=20.0, time_period=3.0)), (_sample(absolute_time=7.0, time_period=2.0), _sample(absolute_time=7.5, time_period=0.25))):
+            try:
+                got = minieval.ev(e, {batch_c: [first, second]})
+            except CannotEval:
+                if rat_equal(e, parse_expr(f"{batch_c}[0].{_ABS} - {batch_c}[0].{_PERIOD}")):
+                    continue
+                raise
+            exp = first.fields[_ABS] - first.fields[_PERIOD]
+            if not _close(got, exp):
+                return False, f"`{short(e, 80)}`: first sample at t={first.fields[_ABS]} with period {first.fields[_PERIOD]} gives start {got!r}, expected {exp!r}"
+        # first sight: created when the task has no state, not when it has
+        stored_by_setdefault = any(isinstance(a_, ast.Call) and isinstance(a_.func, ast.Attribute) and a_.func.attr == "setdefault" and is_self_attr(a_.func.value, A) for a_ in source.ancestors(ctor))
+        if stored_by_setdefault:
+            return True, "created through setdefault: an existing entry is kept"
+        if key_c is None:
+            raise CannotEval(f"the task key is not handed to {cgf.name} by name")
+        facts = pat.fact_nodes(ctor_stmt)
+        outer = next((a_ for a_ in source.ancestors(ctor_stmt) if isinstance(a_, ast.If)), None)
+
+        def under(state):
+            env = {"self": Record(**{A: dict(state)}), key_c: "t"}
+            vals = []
+            for f_ in facts:
+                m_ = {}
+                for x in ast.walk(f_):
+                    if isinstance(x, ast.Name) and isinstance(x.ctx, ast.Load) and x.id not in env and x.id not in m_:
+                        d = _reaching(cgf, x.id, outer if outer is not None else ctor_stmt)
+                        if d is not None:
+                            m_[x.id] = d
+                e_ = _subst(f_, m_)
+                if not any(is_self_attr(x, A) for x in ast.walk(e_)):
+                    continue  # a condition that does not consult the per-task state says nothing about first sight (e.g. an early return for an empty batch)
+                vals.append(bool(minieval.ev(e_, dict(env))))
+            return vals
+
+        if not under({}):
+            return False, f"`{short(ctor, 60)}` under {[u(f_) for f_ in facts]}: none of the conditions consults self.{A}, the state of a known task is replaced"
+        new_task = all(under({}))
+        known_task = [all(under({"t": fresh(**{U: pend_})})) for pend_ in ([], [_sample()])]  # a task that has state, with and without pending samples
+        ok_ = new_task and not any(known_task)
+        return ok_, f"`{short(ctor, 60)}` under {[u(f_) for f_ in facts]}: runs for a new task: {new_task}, runs for a task that has state: {any(known_task)}"
+
+    _decide(chk, "O6.5", "start fixed at first sight: first.absolute_time - first.time_period", ctor, start_value)
+    st_w = [n for n in ast.walk(drv.tree) if isinstance(n, (ast.Assign, ast.AugAssign)) and any(isinstance(t, ast.Attribute) and t.attr == S for t in (n.targets if isinstance(n, ast.Assign) else [n.target]))
+            and source.enclosing_class(n) in (TS, TC) and source.enclosing_func(n) is not None and source.enclosing_func(n).name not in ("__init__", "__post_init__")]
     chk.ob("O6.5", "start_time never rewritten", not st_w, st_w[0] if st_w else TS, "")
     for e in emits:
-        t = e.args[0].elts
-        chk.ob("O6.5", "emitted value is <stats>.throughput", u(t[3]) == f"{stats_var}.throughput", e, f"4th element: {u(t[3])}")
-    # emit follows finish in the same branch
+        v = e.elts[3]
+        ok = is_field(v, stats_var, P) if P in M.props else (on_stats(v, {P}) and not v.args)
+        chk.ob("O6.5", "emitted value is <stats>.throughput", ok, e.node, f"4th element: {u(v)}")
+    # emit follows finish: on every way to the emit (from the function entry, and from the loop head of this iteration) a bucket has just been finished
+    fnodes = [g.node_of(c) for c in fin_calls]
     for e in emits:
-        en = g.node_of(e)
-        ok = g.dominated_by_nodes(en, [g.node_of(c) for c in fin_calls]) and any(
-            source.parent(source.enclosing_stmt(c)) is source.parent(source.enclosing_stmt(e)) for c in fin_calls)
-        chk.ob("O6.5", "value emitted right after its bucket is finished", ok, e, "")
+        en = g.node_of(e.node)
+        ok = bool(fnodes) and g.dominated_by_nodes(en, fnodes) and en.id not in g.reachable([Lh], avoid=fnodes)
+        chk.ob("O6.5", "value emitted right after its bucket is finished", ok, e.node, "")
 
     # ---- O6.4 pass-through and unit -----------------------------------------------------------------------------------------------------
     chk.rule("O6.4", "runner-supplied throughput is passed through unchanged (dispatch on `is None`, never truthiness: 0 is a legitimate value); every emit site builds the unit as '<ops unit>/s'", 4,
              "a runner reporting throughput 0 (or any value): rally recomputes and reports something else")
-    dis = [n for n in walk_body(calc) if isinstance(n, ast.If) and any(isinstance(x, ast.Attribute) and x.attr == "throughput" for x in ast.walk(n.test))]
-    if not dis:
-        raise AnchorMissing("dispatch on first_sample.throughput in calculate()")
-    d = dis[0]
-    t = d.test
-    ok = isinstance(t, ast.Compare) and len(t.ops) == 1 and isinstance(t.ops[0], (ast.Is, ast.IsNot)) and source.is_const(t.comparators[0]) and t.comparators[0].value is None
-    chk.ob("O6.4", "dispatch tests `throughput is None`", ok, d, f"`{u(t)}`" + ("" if ok else " — truthiness/other test treats a runner-supplied 0 as absent"))
-    if ok:
-        none_arm = d.body if isinstance(t.ops[0], ast.Is) else d.orelse
-        some_arm = d.orelse if isinstance(t.ops[0], ast.Is) else d.body
-        ok1 = any(isinstance(n, ast.Call) and last_attr(n.func) == "calculate_task_throughput" for s in none_arm for n in ast.walk(s))
-        ok2 = any(isinstance(n, ast.Call) and last_attr(n.func) == "map_task_throughput" for s in some_arm for n in ast.walk(s))
-        chk.ob("O6.4", "None -> calculate, value -> pass-through", ok1 and ok2, d, "")
-    memits = [n for n in walk_body(mtt) if isinstance(n, ast.Call) and last_attr(n.func) == "append" and n.args and isinstance(n.args[0], ast.Tuple) and len(n.args[0].elts) == 5]
     mloops = [n for n in walk_body(mtt) if isinstance(n, ast.For)]
-    ok = len(memits) == 1 and len(mloops) == 1 and not guards(memits[0], stop=mloops[0]) and not any(isinstance(x, (ast.Break, ast.Continue)) for x in ast.walk(mloops[0]))
+    mvars = set()
+    for e in memits:
+        if isinstance(e.node, (ast.ListComp, ast.GeneratorExp)):
+            mvars |= {x.id for gen in e.node.generators for x in ast.walk(gen.target) if isinstance(x, ast.Name)}
+        else:
+            lp = source.enclosing(e.node, ast.For)
+            if lp is not None and source.enclosing_func(lp) is mtt:
+                mvars |= {x.id for x in ast.walk(lp.target) if isinstance(x, ast.Name)}
+    tp_field = _TP  # the runner-supplied value: vocabulary of the property (a field of Sample, checked above)
+    # dispatch in calculate(): decided on values of the runner-supplied throughput
+    m0 = direct[mtt.name][0]
+    facts_c = [f_ for f_ in pat.fact_nodes(c0, stop=per_task)]
+    facts_m = [f_ for f_ in pat.fact_nodes(m0, stop=per_task)]
+    inl_defs = {k_: v_ for k_, v_ in cdefs.items()}
+    rel_c = [f_ for f_ in facts_c if any(isinstance(x, ast.Attribute) and x.attr == tp_field for x in ast.walk(source.inline_node(f_, inl_defs, no_calls=True)))]
+    rel_m = [f_ for f_ in facts_m if any(isinstance(x, ast.Attribute) and x.attr == tp_field for x in ast.walk(source.inline_node(f_, inl_defs, no_calls=True)))]
+    if not rel_c and not rel_m:
+        raise AnchorMissing(f"dispatch on the runner-supplied {tp_field} of the batch in calculate() (condition that selects {ctt.name} / {mtt.name})")
+    d_site = next((a_ for a_ in source.ancestors(c0) if isinstance(a_, ast.If) and any(x is f_ or x is getattr(f_, "operand", None) for f_ in rel_c + rel_m for x in ast.walk(a_.test))), source.enclosing_stmt(c0))
+    batch_names = {a_.id for c_, fn_ in ((c0, ctt), (m0, mtt)) for a_ in list(c_.args) + [k.value for k in c_.keywords] if isinstance(a_, ast.Name) and a_.id not in (key_param,)}
+
+    def routed(v):
+        """(calculate taken, pass-through taken) when every sample of the batch carries runner throughput v."""
+        env = {nm_: [_sample(throughput=v), _sample(throughput=v, absolute_time=13.0)] for nm_ in batch_names}
+        tc = all(bool(minieval.ev(source.inline_node(f_, inl_defs, no_calls=True), dict(env))) for f_ in rel_c) if rel_c else None
+        tm_ = all(bool(minieval.ev(source.inline_node(f_, inl_defs, no_calls=True), dict(env))) for f_ in rel_m) if rel_m else None
+        return tc, tm_
+
+    def none_not_truthiness():
+        r = {repr(v): routed(v) for v in (None, 0, 0.0, 15000.0)}
+        same = r["0"] == r["0.0"] == r["15000.0"]
+        return same and r["None"] != r["15000.0"], f"`{' / '.join(sorted({u(f_) for f_ in rel_c + rel_m}))}`: (calculate, pass-through) taken for throughput None / 0 / 15000.0: {r['None']} / {r['0']} / {r['15000.0']}" + \
+            ("" if same else " — a runner-supplied 0 is treated as absent")
+
+    def none_to_calculate():
+        n_, v_ = routed(None), routed(15000.0)
+        ok_ = n_[0] in (True,) and n_[1] in (False, None) and v_[1] in (True,) and v_[0] in (False, None) if (rel_c and rel_m) else \
+            ((n_[0] is True and v_[0] is False) if rel_c else (n_[1] is False and v_[1] is True))
+        return ok_, f"None -> (calculate, pass-through) = {n_}; 15000.0 -> {v_}"
+
+    _decide(chk, "O6.4", "dispatch tests `throughput is None`", d_site, none_not_truthiness)
+    _decide(chk, "O6.4", "None -> calculate, value -> pass-through", d_site, none_to_calculate)
+    # pass-through: one value per sample, built from that sample
+    mbatch = [p for p in params_of(mtt)[1:]]
+    ok = len(memits) == 1
+    if ok:
+        e = memits[0]
+        if isinstance(e.node, (ast.ListComp, ast.GeneratorExp)):
+            gens = e.node.generators
+            ok = len(gens) == 1 and not gens[0].ifs and isinstance(gens[0].iter, ast.Name) and gens[0].iter.id in mbatch
+        else:
+            lp = source.enclosing(e.node, ast.For)
+            gm = cfg_of(mtt)
+            ok = lp is not None and source.enclosing_func(lp) is mtt and len(mloops) == 1 and isinstance(lp.iter, ast.Name) and lp.iter.id in mbatch and _every_iteration_passes(gm, lp, [gm.node_of(e.node)]) \
+                and not any(isinstance(x, (ast.Break, ast.Return)) for x in ast.walk(lp))
     chk.ob("O6.4", "pass-through emits one value per sample", ok, mtt, "")
     for e in memits:
-        v = mloops[0].target.id if mloops and isinstance(mloops[0].target, ast.Name) else "sample"
-        t5 = e.args[0].elts
-        chk.ob("O6.4", "pass-through value is the sample's throughput", u(t5[3]) == f"{v}.throughput", e, f"4th element: {u(t5[3])}")
-        chk.ob("O6.4", "pass-through keeps the sample's type and times", u(t5[2]) == f"{v}.sample_type" and u(t5[0]) == f"{v}.absolute_time", e, "")
-    for e in emits + memits:
-        t5 = e.args[0].elts
-        unit = t5[4]
-        ok = isinstance(unit, ast.JoinedStr) and len(unit.values) == 2 and isinstance(unit.values[0], ast.FormattedValue) and u(unit.values[0].value).endswith(".total_ops_unit") \
-            and isinstance(unit.values[1], ast.Constant) and unit.values[1].value == "/s"
-        chk.ob("O6.4", "unit is '<ops unit>/s'", ok, e, f"5th element: {u(unit)}")
+        t5 = e.elts
+        ok = isinstance(t5[3], ast.Attribute) and t5[3].attr == tp_field and isinstance(t5[3].value, ast.Name) and t5[3].value.id in mvars
+        chk.ob("O6.4", "pass-through value is the sample's throughput", ok, e.node, f"4th element: {u(t5[3])}")
+        v = t5[3].value.id if ok else (sorted(mvars)[0] if mvars else "?")
+        chk.ob("O6.4", "pass-through keeps the sample's type and times", is_field(t5[2], v, _STYPE) and is_field(t5[0], v, _ABS) and is_field(t5[1], v, _REL), e.node,
+               f"({u(t5[0])}, {u(t5[1])}, {u(t5[2])}, ...)")
+    for e, others in [(e, {batch: [_sample(total_ops_unit="ops")] * 2, **{nm_: _sample(total_ops_unit="ops") for nm_ in sampled}}) for e in emits] + \
+                     [(e, {p: [_sample(total_ops_unit="ops")] * 2 for p in mbatch} | {nm_: _sample(total_ops_unit="ops") for nm_ in mvars}) for e in memits]:
+        unit = e.elts[4]
+        ts = e.elts[0].value if isinstance(e.elts[0], ast.Attribute) and e.elts[0].attr == _ABS else None
+        val, how = _unit_value(unit, u(ts) if ts is not None else None, others)
+        if val is None:
+            chk.unknown("O6.4", f"unit `{short(unit, 60)}` of an emitted value could not be evaluated", e.node)
+            continue
+        chk.ob("O6.4", "unit is '<ops unit>/s'", val == "docs/s", e.node, f"5th element: {u(unit)}" + ("" if val == "docs/s" else
+               f" — evaluates to {val!r} when the sample that timestamps the value counts 'docs'" + (" and the other samples of the batch 'ops'" if how == "value" else "")))
 
     # ---- obligations added after the defect hunt --------------------------------------------------------------------------------------------
-    tp_fields = {t5_[3].attr for t5_ in (e.args[0].elts for e in memits) if isinstance(t5_[3], ast.Attribute)}
-    if len(tp_fields) != 1:
-        raise AnchorMissing("the sample field map_task_throughput passes through as the value (4th element of the emitted tuple)")
     sampler_handover_rule(chk, drv)
-    passthrough_decision_rule(chk, drv, calc, ctt, mtt, tp_fields.pop())
-    unit_source_rule(chk, drv, TS, TC, ctt, emits, L, stats_var)
-    low_water_mark_rule(chk, drv, TS, TC)
+    passthrough_decision_rule(chk, H, calc, ctt, mtt, tp_field, key_param)
+    unit_source_rule(chk, TC, ctt, emits, L, stats_var, batch, sampled)
+    low_water_mark_rule(chk, drv, TS, TC, I)
+
+
+def _close(a, b):
+    """numeric equality up to rounding (a refactored formula may associate differently)."""
+    if isinstance(a, bool) or isinstance(b, bool) or not isinstance(a, (int, float)) or not isinstance(b, (int, float)):
+        return a == b
+    return abs(a - b) <= 1e-9 * max(1.0, abs(a), abs(b))
+
+
+def _empty_list(v):
+    return (isinstance(v, ast.List) and not v.elts) or (isinstance(v, ast.Call) and dotted(v.func) == "list" and not v.args and not v.keywords)
 
 
 from sa.selftest import V  # noqa: E402
@@ -734,3 +1907,303 @@ VARIANTS = [
       "            if first_sample.throughput is not None:\n                task_throughput = self.map_task_throughput(current_samples)\n            else:\n                task_throughput = self.calculate_task_throughput(task, current_samples, bucket_interval_secs)"),
     V("max operands swapped", "keep", _D, "            self.interval = max(absolute_sample_time - self.start_time, self.interval)", "            self.interval = max(self.interval, absolute_sample_time - self.start_time)"),
 ]
+
+
+# ---- variants for realistic refactorings (hardening round 2): each `keep` is a behaviour-preserving respelling the restated obligations accept, each `break` places a defect INSIDE
+# such a shape (extracted helper, guard clause, comprehension, renamed roles ...) to show that the restated obligation still bites there
+
+
+def _var(name, kind, rule, edits):
+    vs = []
+    for old, new in edits:
+        if isinstance(old, tuple):
+            vs.append(V(name, kind, _D, old[0], new, rule, count=old[1], regex=True))
+        else:
+            vs.append(V(name, kind, _D, old, new, rule))
+    VARIANTS.append(vs[0] if len(vs) == 1 else vs)
+
+
+_MTT_OLD = '''        throughput = []
+        for sample in current_samples:
+            throughput.append(
+                (
+                    sample.absolute_time,
+                    sample.relative_time,
+                    sample.sample_type,
+                    sample.throughput,
+                    f"{sample.total_ops_unit}/s",
+                )
+            )
+        return throughput
+'''
+_var("refactored: map as comprehension", "keep", None, [(_MTT_OLD, '''        return [
+            (sample.absolute_time, sample.relative_time, sample.sample_type, sample.throughput, f"{sample.total_ops_unit}/s")
+            for sample in current_samples
+        ]
+''')])
+_var("defect in a refactored shape: comprehension drops zero throughput", "break", "O6.4", [(_MTT_OLD, '''        return [
+            (sample.absolute_time, sample.relative_time, sample.sample_type, sample.throughput, f"{sample.total_ops_unit}/s")
+            for sample in current_samples if sample.throughput
+        ]
+''')])
+_CREATE_OLD = '''        if task not in self.task_stats:
+            first_sample = current_samples[0]
+            self.task_stats[task] = ThroughputCalculator.TaskStats(
+                bucket_interval=bucket_interval_secs,
+                sample_type=first_sample.sample_type,
+                start_time=first_sample.absolute_time - first_sample.time_period,
+            )
+        current = self.task_stats[task]
+'''
+_var("refactored: stats helper", "keep", None, [(_CREATE_OLD, '''        current = self._stats_for(task, current_samples, bucket_interval_secs)
+'''), ('''    def map_task_throughput(self, current_samples):
+''', '''    def _stats_for(self, task, samples, bucket_interval_secs):
+        if task not in self.task_stats:
+            first_sample = samples[0]
+            self.task_stats[task] = ThroughputCalculator.TaskStats(
+                bucket_interval=bucket_interval_secs,
+                sample_type=first_sample.sample_type,
+                start_time=first_sample.absolute_time - first_sample.time_period,
+            )
+        return self.task_stats[task]
+
+    def map_task_throughput(self, current_samples):
+''')])
+_var("defect in a refactored shape: stats helper recreates state when nothing pending", "break", "O6.5", [(_CREATE_OLD, '''        current = self._stats_for(task, current_samples, bucket_interval_secs)
+'''), ('''    def map_task_throughput(self, current_samples):
+''', '''    def _stats_for(self, task, samples, bucket_interval_secs):
+        if task not in self.task_stats or not self.task_stats[task].unprocessed:
+            first_sample = samples[0]
+            self.task_stats[task] = ThroughputCalculator.TaskStats(
+                bucket_interval=bucket_interval_secs,
+                sample_type=first_sample.sample_type,
+                start_time=first_sample.absolute_time - first_sample.time_period,
+            )
+        return self.task_stats[task]
+
+    def map_task_throughput(self, current_samples):
+''')])
+_var("refactored: setdefault", "keep", None, [(_CREATE_OLD, '''        first_sample = current_samples[0]
+        current = self.task_stats.setdefault(
+            task,
+            ThroughputCalculator.TaskStats(
+                bucket_interval=bucket_interval_secs,
+                sample_type=first_sample.sample_type,
+                start_time=first_sample.absolute_time - first_sample.time_period,
+            ),
+        )
+''')])
+_var("refactored: rename total_count", "keep", None, [((r"\btotal_count\b", 6), "carried_total")])
+_var("refactored: rename unprocessed", "keep", None, [((r"\bunprocessed\b", 6), "pending")])
+_var("refactored: rename interval attr", "keep", None, [((r"\.interval\b", 8), ".elapsed")])
+_var("refactored: rename has_samples flag", "keep", None, [((r"\bhas_samples_in_sample_type\b", 4), "has_value")])
+_var("refactored: rename task_stats", "keep", None, [((r"\btask_stats\b", 6), "stats_by_task")])
+_var("refactored: rename methods", "keep", None, [((r"\bfinish_bucket\b", 3), "close_bucket"), ((r"\bupdate_interval\b", 2), "advance"), ((r"\bmaybe_update_sample_type\b", 2), "observe_type"),
+                                     ((r"\bcan_calculate_throughput\b", 2), "bucket_complete"), ((r"\bcan_add_final_throughput_sample\b", 2), "needs_final_value")])
+_var("refactored: rename the two routines", "keep", None, [((r"\bcalculate_task_throughput\b", 2), "_calculate_for"), ((r"\bmap_task_throughput\b", 2), "_pass_through")])
+_var("refactored: update_interval as if", "keep", None, [("            self.interval = max(absolute_sample_time - self.start_time, self.interval)", "            elapsed = absolute_sample_time - self.start_time\n            if elapsed > self.interval:\n                self.interval = elapsed")])
+_var("defect in a refactored shape: update_interval as if, wrong way", "break", "O6.2", [("            self.interval = max(absolute_sample_time - self.start_time, self.interval)", "            elapsed = absolute_sample_time - self.start_time\n            if elapsed < self.interval:\n                self.interval = elapsed")])
+_var("refactored: type update via max", "keep", None, [("            if self.sample_type < current_sample_type:\n                self.sample_type = current_sample_type\n                self.has_samples_in_sample_type = False",
+   "            newer = max(self.sample_type, current_sample_type)\n            if newer != self.sample_type:\n                self.sample_type = newer\n                self.has_samples_in_sample_type = False")])
+_GROUP_OLD = '''            k = sample.task
+            if k not in samples_per_task:
+                samples_per_task[k] = []
+            samples_per_task[k].append(sample)
+'''
+_var("refactored: grouping setdefault", "keep", None, [(_GROUP_OLD, "            samples_per_task.setdefault(sample.task, []).append(sample)\n")])
+_var("refactored: grouping defaultdict", "keep", None, [(_GROUP_OLD, "            samples_per_task[sample.task].append(sample)\n"), ("        samples_per_task = {}\n", "        samples_per_task = collections.defaultdict(list)\n")])
+_var("defect in a refactored shape: grouping skips zero-op samples", "break", "O6.1", [(_GROUP_OLD, "            if not sample.total_ops:\n                continue\n            samples_per_task.setdefault(sample.task, []).append(sample)\n")])
+_var("refactored: attrgetter", "keep", None, [("key=lambda s: s.absolute_time", 'key=operator.attrgetter("absolute_time")')])
+_var("refactored: ops local", "keep", None, [("            count += sample.total_ops\n", "            ops = sample.total_ops\n            count += ops\n")])
+_var("refactored: whole sample to state", "keep", None, [("            current.update_interval(sample.absolute_time)", "            current.update_interval(sample)"),
+    ("        def update_interval(self, absolute_sample_time):\n            self.interval = max(absolute_sample_time - self.start_time, self.interval)", "        def update_interval(self, sample):\n            self.interval = max(sample.absolute_time - self.start_time, self.interval)")])
+_var("refactored: keep method", "keep", None, [("                current.unprocessed.append(sample)", "                current.keep(sample)"),
+    ("        def finish_bucket(self, new_total):", "        def keep(self, sample):\n            self.unprocessed.append(sample)\n\n        def finish_bucket(self, new_total):")])
+_var("refactored: chain via alias", "keep", None, [("                samples = itertools.chain(v, self.task_stats[task].unprocessed)", "                carried_over = self.task_stats[task].unprocessed\n                samples = itertools.chain(v, carried_over)")])
+_var("refactored: eager concatenation", "keep", None, [("                samples = itertools.chain(v, self.task_stats[task].unprocessed)", "                samples = v + self.task_stats[task].unprocessed")])
+_var("refactored: predicate as property", "keep", None, [("        def can_calculate_throughput(self):", "        @property\n        def can_calculate_throughput(self):"), ("            if current.can_calculate_throughput():", "            if current.can_calculate_throughput:")])
+_var("refactored: enumerate loop", "keep", None, [("        for sample in current_samples:\n            last_sample = sample", "        for idx, sample in enumerate(current_samples):\n            last_sample = sample")])
+_var("refactored: can_calc flipped", "keep", None, [("            return self.interval > 0 and self.interval >= self.bucket", "            return 0 < self.interval and self.bucket <= self.interval")])
+_var("refactored: final predicate as if-chain", "keep", None, [("            return self.interval > 0 and not self.has_samples_in_sample_type", "            if self.has_samples_in_sample_type:\n                return False\n            return self.interval > 0")])
+_var("defect in a refactored shape: final predicate also wants count", "break", "O6.3", [("            return self.interval > 0 and not self.has_samples_in_sample_type", "            if self.has_samples_in_sample_type or self.total_count == 0:\n                return False\n            return self.interval > 0")])
+_var("refactored: unit via str concat", "keep", None, [('                    f"{last_sample.total_ops_unit}/s",', '                    last_sample.total_ops_unit + "/s",')])
+_var("refactored: finish clears list in place", "keep", None, [("        def finish_bucket(self, new_total):\n            self.unprocessed = []", "        def finish_bucket(self, new_total):\n            self.unprocessed.clear()")])
+
+_EMIT1 = '''                task_throughput.append(
+                    (
+                        sample.absolute_time,
+                        sample.relative_time,
+                        current.sample_type,
+                        current.throughput,
+                        # we calculate throughput per second
+                        f"{sample.total_ops_unit}/s",
+                    )
+                )
+'''
+_EMIT2 = '''            task_throughput.append(
+                (
+                    last_sample.absolute_time,
+                    last_sample.relative_time,
+                    current.sample_type,
+                    current.throughput,
+                    f"{last_sample.total_ops_unit}/s",
+                )
+            )
+'''
+_HELPER_AT = '''    def map_task_throughput(self, current_samples):
+'''
+def _helper(body):
+    return '''    @staticmethod
+    def _throughput_value(sample, sample_type, throughput):
+        return (
+''' + body + '''        )
+
+''' + _HELPER_AT
+_GOOD = '''            sample.absolute_time,
+            sample.relative_time,
+            sample_type,
+            throughput,
+            f"{sample.total_ops_unit}/s",
+'''
+_B1 = [(_EMIT1, "                task_throughput.append(self._throughput_value(sample, current.sample_type, current.throughput))\n"),
+      (_EMIT2, "            task_throughput.append(self._throughput_value(last_sample, current.sample_type, current.throughput))\n")]
+_var("refactored: tuple helper", "keep", None, _B1 + [(_HELPER_AT, _helper(_GOOD))])
+_var("defect in a refactored shape: tuple helper emits the sample's own type", "break", "O6.3", _B1 + [(_HELPER_AT, _helper(_GOOD.replace("            sample_type,\n", "            sample.sample_type,\n")))])
+_var("defect in a refactored shape: tuple helper swaps type and value", "break", "O6.3", _B1 + [(_HELPER_AT, _helper(_GOOD.replace("            sample_type,\n            throughput,\n", "            throughput,\n            sample_type,\n")))])
+_var("defect in a refactored shape: tuple helper: unit without /s", "break", "O6.4", _B1 + [(_HELPER_AT, _helper(_GOOD.replace('f"{sample.total_ops_unit}/s"', 'sample.total_ops_unit')))])
+_var("defect in a refactored shape: call site passes sample.sample_type", "break", "O6.3", [(_EMIT1, "                task_throughput.append(self._throughput_value(sample, sample.sample_type, current.throughput))\n"), _B1[1], (_HELPER_AT, _helper(_GOOD))])
+_var("refactored: helper takes the state", "keep", None, [(_EMIT1, "                task_throughput.append(self._throughput_value(sample, current))\n"), (_EMIT2, "            task_throughput.append(self._throughput_value(last_sample, current))\n"),
+     (_HELPER_AT, '''    @staticmethod
+    def _throughput_value(sample, stats):
+        return (sample.absolute_time, sample.relative_time, stats.sample_type, stats.throughput, f"{sample.total_ops_unit}/s")
+
+''' + _HELPER_AT)])
+_LOOP_TAIL_OLD = '''            if current.can_calculate_throughput():
+                current.finish_bucket(count)
+''' + _EMIT1 + '''            else:
+                current.unprocessed.append(sample)
+'''
+_GUARD = '''            if not current.can_calculate_throughput():
+                current.unprocessed.append(sample)
+                continue
+            current.finish_bucket(count)
+''' + _EMIT1.replace("\n    ", "\n").replace("                task_throughput", "            task_throughput", 1)
+_var("refactored: guard clause", "keep", None, [(_LOOP_TAIL_OLD, _GUARD)])
+_HEAD_OLD = '''            count += sample.total_ops
+            current.update_interval(sample.absolute_time)
+
+'''
+_var("defect in a refactored shape: guard clause above the count update", "break", "O6.1", [(_LOOP_TAIL_OLD, '''            current.finish_bucket(count)
+''' + _EMIT1.replace("\n    ", "\n").replace("                task_throughput", "            task_throughput", 1)),
+    (_HEAD_OLD, '''            current.update_interval(sample.absolute_time)
+            if not current.can_calculate_throughput():
+                current.unprocessed.append(sample)
+                continue
+            count += sample.total_ops
+''')])
+_var("defect in a refactored shape: guard clause without keeping the sample", "break", "O6.1", [(_LOOP_TAIL_OLD, _GUARD.replace("                current.unprocessed.append(sample)\n", "                pass\n"))])
+_var("refactored: last sample by index", "keep", None, [("        last_sample = None\n", ""), ("            last_sample = sample\n", ""),
+    ("        if last_sample is not None and current.can_add_final_throughput_sample():", "        last_sample = current_samples[-1] if current_samples else None\n        if last_sample is not None and current.can_add_final_throughput_sample():")])
+_var("refactored: throughput as method", "keep", None, [("        @property\n        def throughput(self):", "        def throughput(self):"), ((r"current\.throughput,", 2), "current.throughput(),")])
+_var("refactored: unit local per site", "keep", None, [(_EMIT1, '''                unit = f"{sample.total_ops_unit}/s"
+                task_throughput.append((sample.absolute_time, sample.relative_time, current.sample_type, current.throughput, unit))
+'''), (_EMIT2, '''            unit = f"{last_sample.total_ops_unit}/s"
+            task_throughput.append((last_sample.absolute_time, last_sample.relative_time, current.sample_type, current.throughput, unit))
+''')])
+_var("refactored: final rule as guard clauses", "keep", None, [("        if last_sample is not None and current.can_add_final_throughput_sample():\n            current.finish_bucket(count)\n" + _EMIT2,
+   "        if last_sample is None:\n            return task_throughput\n        if not current.can_add_final_throughput_sample():\n            return task_throughput\n        current.finish_bucket(count)\n" + _EMIT2.replace("\n    ", "\n").replace("            task_throughput", "        task_throughput", 1))])
+_var("defect in a refactored shape: final rule only for batches that closed no bucket", "break", "O6.3", [("        if last_sample is not None and current.can_add_final_throughput_sample():", "        if last_sample is not None and not task_throughput and current.can_add_final_throughput_sample():")])
+_var("defect in a refactored shape: final emit without finish", "break", "O6.", [("        if last_sample is not None and current.can_add_final_throughput_sample():\n            current.finish_bucket(count)\n", "        if last_sample is not None and current.can_add_final_throughput_sample():\n")])
+_var("defect in a refactored shape: in-loop read of throughput before interval check", "break", "O6.2", [("            if current.can_calculate_throughput():\n                current.finish_bucket(count)", "            if current.interval >= current.bucket:\n                current.finish_bucket(count)")])
+
+_var("refactored: reset method on the state", "keep", None, [("        current.unprocessed = []\n        count = current.total_count", "        current.start_batch()\n        count = current.total_count"),
+   ("        def finish_bucket(self, new_total):", "        def start_batch(self):\n            # samples carried over from the previous invocation are part of the new batch\n            self.unprocessed = []\n\n        def finish_bucket(self, new_total):")])
+_var("defect in a refactored shape: reset method also resets the carried total", "break", "O6.1", [("        current.unprocessed = []\n        count = current.total_count", "        current.start_batch()\n        count = current.total_count"),
+   ("        def finish_bucket(self, new_total):", "        def start_batch(self):\n            self.unprocessed = []\n            self.total_count = 0\n\n        def finish_bucket(self, new_total):")])
+_var("refactored: slice reset", "keep", None, [("        current.unprocessed = []\n        count = current.total_count", "        del current.unprocessed[:]\n        count = current.total_count")])
+_var("refactored: count init after type", "keep", None, [("        count = current.total_count\n        last_sample = None\n", "        last_sample = None\n        count = current.total_count\n")])
+_var("refactored: early return on empty batch", "keep", None, [("        task_throughput = []\n\n        if task not in self.task_stats:", "        task_throughput = []\n        if not current_samples:\n            return task_throughput\n\n        if task not in self.task_stats:")])
+_var("refactored: dispatch without the local", "keep", None, [("            if first_sample.throughput is None:", "            if current_samples[0].throughput is None:")])
+_var("refactored: dispatch bound to local", "keep", None, [("            if first_sample.throughput is None:", "            runner_throughput = first_sample.throughput\n            if runner_throughput is None:")])
+_var("refactored: ternary dispatch", "keep", None, [('''            if first_sample.throughput is None:
+                task_throughput = self.calculate_task_throughput(task, current_samples, bucket_interval_secs)
+            else:
+                task_throughput = self.map_task_throughput(current_samples)
+''', '''            task_throughput = (
+                self.calculate_task_throughput(task, current_samples, bucket_interval_secs)
+                if first_sample.throughput is None
+                else self.map_task_throughput(current_samples)
+            )
+''')])
+_var("refactored: keyword args at call", "keep", None, [("self.calculate_task_throughput(task, current_samples, bucket_interval_secs)", "self.calculate_task_throughput(task=task, current_samples=current_samples, bucket_interval_secs=bucket_interval_secs)")])
+_var("refactored: positional ctor", "keep", None, [('''ThroughputCalculator.TaskStats(
+                bucket_interval=bucket_interval_secs,
+                sample_type=first_sample.sample_type,
+                start_time=first_sample.absolute_time - first_sample.time_period,
+            )''', '''ThroughputCalculator.TaskStats(bucket_interval_secs, first_sample.sample_type, first_sample.absolute_time - first_sample.time_period)''')])
+_var("refactored: start local", "keep", None, [('''            first_sample = current_samples[0]
+            self.task_stats[task] = ThroughputCalculator.TaskStats(''', '''            first_sample = current_samples[0]
+            task_start = first_sample.absolute_time - first_sample.time_period
+            self.task_stats[task] = ThroughputCalculator.TaskStats('''), ("                start_time=first_sample.absolute_time - first_sample.time_period,", "                start_time=task_start,")])
+_var("refactored: finish via tuple assignment", "keep", None, [("            self.unprocessed = []\n            self.total_count = new_total\n", "            self.unprocessed, self.total_count = [], new_total\n")])
+_var("refactored: drain with popleft loop", "keep", None, [('''        samples = []
+        try:
+            while True:
+                samples.append(self.q.get_nowait())
+        except queue.Empty:
+            pass
+        return samples
+''', '''        drained = []
+        while True:
+            try:
+                drained.append(self.q.get_nowait())
+            except queue.Empty:
+                return drained
+''')])
+_var("defect in a refactored shape: drain copy then clear", "break", "O6.6", [('''        samples = []
+        try:
+            while True:
+                samples.append(self.q.get_nowait())
+        except queue.Empty:
+            pass
+        return samples
+''', '''        samples = list(self.q.queue)
+        self.q.queue.clear()
+        return samples
+''')])
+
+_MERGE_OLD = '''            if task in self.task_stats:
+                samples = itertools.chain(v, self.task_stats[task].unprocessed)
+            else:
+                samples = v
+            current_samples = sorted(samples, key=lambda s: s.absolute_time)
+'''
+_MERGE_HELPER = ("    def map_task_throughput(self, current_samples):\n", '''    def _with_pending(self, task, new_samples):
+        if task in self.task_stats:
+            return itertools.chain(new_samples, self.task_stats[task].unprocessed)
+        return new_samples
+
+    def map_task_throughput(self, current_samples):
+''')
+_var("refactored: merge of new and pending samples extracted into a helper", "keep", None,
+     [(_MERGE_OLD, "            current_samples = sorted(self._with_pending(task, v), key=lambda s: s.absolute_time)\n"), _MERGE_HELPER])
+_var("defect in a refactored shape: merged iterator from the helper peeked before the sort", "break", "O6.1",
+     [(_MERGE_OLD, "            samples = self._with_pending(task, v)\n            if next(iter(samples), None) is None:\n                continue\n            current_samples = sorted(samples, key=lambda s: s.absolute_time)\n"),
+      _MERGE_HELPER])
+_var("defect in a refactored shape: helper merges only when the task is NOT known", "break", "O6.1",
+     [(_MERGE_OLD, "            current_samples = sorted(self._with_pending(task, v), key=lambda s: s.absolute_time)\n"),
+      (_MERGE_HELPER[0], _MERGE_HELPER[1].replace("        if task in self.task_stats:\n", "        if task in self.task_stats and not new_samples:\n"))])
+_var("refactored: unit with % formatting", "keep", None, [('                    f"{last_sample.total_ops_unit}/s",', '                    "%s/s" % last_sample.total_ops_unit,')])
+_var("defect in a refactored shape: % formatted unit from the first sample of the batch", "break", "O6.4",
+     [('                    f"{last_sample.total_ops_unit}/s",', '                    "%s/s" % current_samples[0].total_ops_unit,')])
+_var("refactored: sort key as a named function", "keep", None,
+     [("key=lambda s: s.absolute_time", "key=_by_time"), ("class ThroughputCalculator:\n", "def _by_time(s):\n    return s.absolute_time\n\n\nclass ThroughputCalculator:\n")])
+_var("refactored: bucket boundary with math.floor", "keep", None, [("            self.bucket = int(self.interval) + self.bucket_interval", "            self.bucket = math.floor(self.interval) + self.bucket_interval")])
+_var("refactored: type update spelled with the enum members", "keep", None,
+     [("            if self.sample_type < current_sample_type:", "            if self.sample_type == metrics.SampleType.Warmup and current_sample_type == metrics.SampleType.Normal:")])
+_var("defect in a refactored shape: enum-spelled type update lets the type fall", "break", "O6.3",
+     [("            if self.sample_type < current_sample_type:", "            if self.sample_type == metrics.SampleType.Normal and current_sample_type == metrics.SampleType.Warmup:")])
+_var("defect in a refactored shape: has-value flag set only when the count is positive", "break", "O6.3",
+     [("            self.has_samples_in_sample_type = True\n", "            self.has_samples_in_sample_type = new_total > 0\n")])
+_var("refactored: finish stores the total behind a test that always holds", "keep", None,
+     [("            self.total_count = new_total\n", "            if new_total >= self.total_count:\n                self.total_count = new_total\n")])
